@@ -5,10 +5,25 @@ import Mathlib.Tactic.Linarith
 /-
   C14, part B — GLOBAL safety of the reliable broadcast (agreement, integrity, no duplication)
   for a system of `n` parties, at most `t` of them Byzantine, `3 t < n`, all honest parties
-  running `Tmcg.Rbc.step` / `Tmcg.Rbc.broadcast` on ONE channel.
+  running `Tmcg.Rbc.step` / `Tmcg.Rbc.broadcast` on ONE channel, in FIFO or in non-FIFO mode.
 
-  (TmcgProofs/RbcLocal.lean is not imported: its compiled file does not exist yet and none of its
-  statements is needed here; everything is proved from the model directly.)
+  Contents
+    1.-3.  lemmas on the data structures; `Disp`: a relational description of `dispatch`
+           (`dispatch_cases`), of `deliverOrBuffer` (`dob_cases`) and of `step` (`step_cases`)
+    4.     the system model: `Cfg`, `Sys`, `Event`, `Event.Valid`, `Reach`, executable `run`
+    5.     the invariant `Inv` (global part on the message log, `PInv` per honest party)
+    6.     counting (quorum intersection) and the three safety properties FROM the invariant
+    7.     the invariant is inductive (`inv_init`, `inv_step`, `reach_inv`)
+    8.     `rbc_agreement`, `rbc_integrity`, `rbc_no_duplication` for every reachable state
+    9.     non-vacuity (`Example.ex_deliveries`: 4 parties, party 3 Byzantine and equivocating,
+           all three honest parties deliver) and `HashZero.hash_zero_breaks_agreement`: the
+           hypothesis `∀ m, H m ≠ 0` of `Hyp` is necessary for this implementation.
+
+  Hypotheses (`Hyp`): `3 t < n`, `byz.card ≤ t`, `H` injective, `H m ≠ 0`.  Nothing is assumed
+  about `T`, about the permutations `pi`, or about the sequence numbers of non-FIFO broadcasts.
+
+  (TmcgProofs/RbcLocal.lean is not imported: its compiled file did not exist and none of its
+  statements is needed here; everything is proved from the model directly.  No `sorry`.)
 -/
 namespace Tmcg.Rbc
 
@@ -129,12 +144,13 @@ structure SameCore (q q' : Party) : Prop where
   deliverBuf : q'.deliverBuf = q.deliverBuf
   deliver : q'.deliver = q.deliver
   retrieve : q'.retrieve = q.retrieve
+  awaited : q'.awaited = q.awaited
   send : ∀ a b, fHas q.send a b = true → fHas q'.send a b = true
   echo : ∀ a b, fHas q.echo a b = true → fHas q'.echo a b = true
   ready : ∀ a b, fHas q.ready a b = true → fHas q'.ready a b = true
 
 theorem SameCore.refl (q : Party) : SameCore q q :=
-  ⟨rfl, rfl, rfl, rfl, rfl, rfl, rfl, rfl, rfl, rfl, rfl, rfl, rfl, rfl, rfl, rfl,
+  ⟨rfl, rfl, rfl, rfl, rfl, rfl, rfl, rfl, rfl, rfl, rfl, rfl, rfl, rfl, rfl, rfl, rfl,
    fun _ _ h => h, fun _ _ h => h, fun _ _ h => h⟩
 
 theorem SameCore.mkSend (q : Party) (l : Nat) (tg : Tag) :
@@ -207,16 +223,21 @@ inductive Disp (H : Int → Int) (q : Party) (l : Nat) (msg : Msg) : Party → S
   /-- a counted r-ready that does not touch `dbar` and does not deliver -/
   | readyCount (wf : WF q msg) (hact : msg.action = rReady) (hnew : fHas q.ready l msg.tag = false)
       (s : Sent)
-      (hs : (∀ x ∈ s, x.2.action = rRequest) ∨
+      (hs : s = [] ∨
             (s = sendAll q.n ⟨msg.id, msg.sender, msg.seq, rReady, msg.payload⟩ ∧
              cnt q.rD (msg.tag, msg.payload) + 1 = q.t + 1)) :
       Disp H q l msg (readyPost q l msg) s .idle
-  /-- the `2t+1`-st r-ready fixes `dbar`; payload unknown: r-request -/
-  | readyDbar (wf : WF q msg) (hact : msg.action = rReady) (hnew : fHas q.ready l msg.tag = false)
-      (hr : cnt q.rD (msg.tag, msg.payload) + 1 = 2 * q.t + 1)
-      (hd : aGet q.dbar msg.tag = none) (s : Sent) (hs : ∀ x ∈ s, x.2.action = rRequest) :
+  /-- the `2t+1`-st r-ready (fixes `dbar` if it is not set); payload unknown: r-request,
+      the tag becomes awaited -/
+  | readyReq (wf : WF q msg) (hact : msg.action = rReady) (hnew : fHas q.ready l msg.tag = false)
+      (hr : cnt q.rD (msg.tag, msg.payload) + 1 = 2 * q.t + 1) (p3 : Party)
+      (hd : (aGet q.dbar msg.tag = none ∧
+              p3 = { readyPost q l msg with dbar := aSet q.dbar msg.tag msg.payload }) ∨
+            (aGet q.dbar msg.tag = some msg.payload ∧ p3 = readyPost q l msg))
+      (s : Sent) (hs : ∀ x ∈ s, x.2.action = rRequest) :
       Disp H q l msg
-        { readyPost q l msg with dbar := aSet q.dbar msg.tag msg.payload } s .idle
+        { p3 with awaited := if q.awaited.contains msg.tag then q.awaited
+                             else msg.tag :: q.awaited } s .idle
   /-- the `2t+1`-st r-ready, stored payload matches `dbar`: deliver or buffer -/
   | readyDeliver (wf : WF q msg) (hact : msg.action = rReady) (hnew : fHas q.ready l msg.tag = false)
       (hr : cnt q.rD (msg.tag, msg.payload) + 1 = 2 * q.t + 1) (p3 : Party)
@@ -227,12 +248,13 @@ inductive Disp (H : Int → Int) (q : Party) (l : Nat) (msg : Msg) : Party → S
               (∃ mb, aGet q.mbar msg.tag = some mb ∧ H mb = msg.payload)) :
       Disp H q l msg (deliverOrBuffer p3 msg []).party (deliverOrBuffer p3 msg []).sent
         (deliverOrBuffer p3 msg []).out
-  /-- an r-answer with the agreed digest while the stored payload does not match -/
+  /-- a valid r-answer for an awaited tag -/
   | answerDeliver (wf : WF q msg) (hact : msg.action = rAnswer)
       (hnew : fHas q.answer l msg.tag = false) (db : Int) (hd : aGet q.dbar msg.tag = some db)
-      (hk : ∀ mb, aGet q.mbar msg.tag = some mb → H mb ≠ db) (hh : H msg.payload = db) (p2 : Party)
+      (haw : q.awaited.contains msg.tag = true) (hh : H msg.payload = db) (p2 : Party)
       (hp2 : p2 = { q with answer := fIns q.answer l msg.tag,
-                           mbar := aSet q.mbar msg.tag msg.payload }) :
+                           mbar := aSet q.mbar msg.tag msg.payload,
+                           awaited := q.awaited.erase msg.tag }) :
       Disp H q l msg (deliverOrBuffer p2 msg []).party (deliverOrBuffer p2 msg []).sent
         (deliverOrBuffer p2 msg []).out
   /-- an l-retrieve that is answered with the stored payload -/
@@ -362,7 +384,7 @@ theorem dispatch_cases (H : Int → Int) (T : Tag → Int) (q : Party) (sent0 : 
                 simp only []
                 by_cases hfoo : (0 : Int) ≠ msg.payload
                 · rw [if_pos hfoo]
-                  exact ⟨_, _, .idle, .readyDbar wf hR hf0 hr' hd _ hreq, rfl⟩
+                  exact ⟨_, _, .idle, .readyReq wf hR hf0 hr' _ (Or.inl ⟨hd, rfl⟩) _ hreq, rfl⟩
                 · rw [if_neg hfoo]
                   simp only [ne_eq, not_not] at hfoo
                   exact ⟨_, _, _, .readyDeliver wf hR hf0 hr' _ (Or.inl ⟨hd, rfl⟩)
@@ -371,7 +393,7 @@ theorem dispatch_cases (H : Int → Int) (T : Tag → Int) (q : Party) (sent0 : 
                 simp only []
                 by_cases hfoo : H mb ≠ msg.payload
                 · rw [if_pos hfoo]
-                  exact ⟨_, _, .idle, .readyDbar wf hR hf0 hr' hd _ hreq, rfl⟩
+                  exact ⟨_, _, .idle, .readyReq wf hR hf0 hr' _ (Or.inl ⟨hd, rfl⟩) _ hreq, rfl⟩
                 · rw [if_neg hfoo]
                   simp only [ne_eq, not_not] at hfoo
                   exact ⟨_, _, _, .readyDeliver wf hR hf0 hr' _ (Or.inl ⟨hd, rfl⟩)
@@ -381,7 +403,7 @@ theorem dispatch_cases (H : Int → Int) (T : Tag → Int) (q : Party) (sent0 : 
               by_cases hdb : db ≠ msg.payload
               · rw [if_pos hdb]
                 simp only []
-                exact ⟨_, _, .idle, .readyCount wf hR hf0 _ (Or.inl (by simp)), rfl⟩
+                exact ⟨_, _, .idle, .readyCount wf hR hf0 _ (Or.inl rfl), rfl⟩
               · rw [if_neg hdb]
                 simp only [ne_eq, not_not] at hdb
                 subst hdb
@@ -391,7 +413,7 @@ theorem dispatch_cases (H : Int → Int) (T : Tag → Int) (q : Party) (sent0 : 
                   simp only []
                   by_cases hfoo : (0 : Int) ≠ msg.payload
                   · rw [if_pos hfoo]
-                    exact ⟨_, _, .idle, .readyCount wf hR hf0 _ (Or.inl hreq), rfl⟩
+                    exact ⟨_, _, .idle, .readyReq wf hR hf0 hr' _ (Or.inr ⟨hd, rfl⟩) _ hreq, rfl⟩
                   · rw [if_neg hfoo]
                     simp only [ne_eq, not_not] at hfoo
                     exact ⟨_, _, _, .readyDeliver wf hR hf0 hr' _ (Or.inr ⟨hd, rfl⟩)
@@ -400,13 +422,13 @@ theorem dispatch_cases (H : Int → Int) (T : Tag → Int) (q : Party) (sent0 : 
                   simp only []
                   by_cases hfoo : H mb ≠ msg.payload
                   · rw [if_pos hfoo]
-                    exact ⟨_, _, .idle, .readyCount wf hR hf0 _ (Or.inl hreq), rfl⟩
+                    exact ⟨_, _, .idle, .readyReq wf hR hf0 hr' _ (Or.inr ⟨hd, rfl⟩) _ hreq, rfl⟩
                   · rw [if_neg hfoo]
                     simp only [ne_eq, not_not] at hfoo
                     exact ⟨_, _, _, .readyDeliver wf hR hf0 hr' _ (Or.inr ⟨hd, rfl⟩)
                       (Or.inr ⟨mb, hm, hfoo⟩), rfl⟩
           · rw [if_neg hr]
-            exact ⟨_, _, .idle, .readyCount wf hR hf0 _ (Or.inl (by simp)), rfl⟩
+            exact ⟨_, _, .idle, .readyCount wf hR hf0 _ (Or.inl rfl), rfl⟩
   rw [if_neg hR]
   by_cases hQ : msg.action = rRequest
   · rw [if_pos hQ]
@@ -442,26 +464,15 @@ theorem dispatch_cases (H : Int → Int) (T : Tag → Int) (q : Party) (sent0 : 
             (⟨{ q with answer := fIns q.answer l msg.tag }, sent0 ++ [], Outcome.idle⟩ : Result)
               = ⟨q', sent0 ++ s, o⟩ :=
           ⟨_, [], .idle, .minor _ [] (SameCore.mkAnswer q _) (by simp), rfl⟩
-        cases hm : aGet q.mbar msg.tag with
-        | none =>
-          simp only [Bool.false_eq_true, if_false]
+        by_cases haw : q.awaited.contains msg.tag = true
+        · simp only [haw, Bool.not_true, Bool.false_eq_true, if_false]
           by_cases hh : H msg.payload = db
           · rw [if_pos hh]
-            exact ⟨_, _, _, .answerDeliver wf hA hf0 db hd (by simp [hm]) hh _ rfl, rfl⟩
+            exact ⟨_, _, _, .answerDeliver wf hA hf0 db hd haw hh _ rfl, rfl⟩
           · rw [if_neg hh]; exact hmark
-        | some mb =>
-          simp only [decide_eq_true_eq]
-          by_cases hk : H mb = db
-          · rw [if_pos hk]; exact hmark
-          · rw [if_neg hk]
-            by_cases hh : H msg.payload = db
-            · rw [if_pos hh]
-              refine ⟨_, _, _, .answerDeliver wf hA hf0 db hd ?_ hh _ rfl, rfl⟩
-              intro mb' hmb'
-              rw [hm] at hmb'
-              cases hmb'
-              exact hk
-            · rw [if_neg hh]; exact hmark
+        · have haw0 : q.awaited.contains msg.tag = false := by simpa using haw
+          simp only [haw0, Bool.not_false, if_true]
+          exact hmark
   rw [if_neg hA]
   by_cases hL : msg.action = lRetrieve
   · rw [if_pos hL]
@@ -845,4 +856,1481 @@ theorem run_reach (H : Int → Int) (T : Tag → Int) (c : Cfg) (evs : List Even
     (h : run H T c evs = some s) : Reach H T c s :=
   runFrom_reach H T c evs _ s Reach.init h
 
+
+/-! ## 5. the invariant -/
+
+/-- an echo quorum for `(tag, d)` visible in the log: `n - t` parties all of whose honest members
+    have sent r-echo with digest `d` for `tag` -/
+def EQ (c : Cfg) (log : List (Nat × Nat × Msg)) (tag : Tag) (d : Int) : Prop :=
+  ∃ S : Finset Nat, S ⊆ Finset.range c.n ∧ c.n - c.t ≤ S.card ∧
+    ∀ k ∈ S, k ∉ c.byz → ∃ dst m, (k, dst, m) ∈ log ∧ m.action = rEcho ∧ m.tag = tag ∧ m.payload = d
+
+/-- `S` is a set of `k` distinct links that passed the first-time filter `f` for `tag` and whose
+    honest members have sent to `i` a message with action `a`, tag `tag` and payload `d` -/
+def Wit (c : Cfg) (log : List (Nat × Nat × Msg)) (i : Nat) (f : Filter) (a : Int) (tag : Tag)
+    (d : Int) (k : Nat) : Prop :=
+  ∃ S : Finset Nat, S.card = k ∧ ∀ l ∈ S, l < c.n ∧ fHas f l tag = true ∧
+    (l ∉ c.byz → ∃ m, (l, i, m) ∈ log ∧ m.action = a ∧ m.tag = tag ∧ m.payload = d)
+
+/-- the slot of the retrieve buffer of `tag` that belongs to link `l` -/
+def rbVal (p : Party) (tag : Tag) (l : Nat) : Int :=
+  ((aGet p.retrieveBuf tag).getD (List.replicate p.n 0)).getD l 0
+
+/-- invariant of one honest party `i` with state `p` relative to the log and the deliveries -/
+structure PInv (H : Int → Int) (c : Cfg) (i : Nat) (p : Party) (log : List (Nat × Nat × Msg))
+    (dl : List (Nat × Tag × Int)) : Prop where
+  cn : p.n = c.n
+  ct : p.t = c.t
+  cj : p.j = i
+  cID : p.ID = c.ID
+  cfifo : p.fifo = c.fifo
+  cskip : p.fifoSkip = 0
+  cbuf : p.bufMsg = List.replicate p.n []
+  clen : p.deliverS.length = c.n
+  nfRetr : c.fifo = false → p.retrieve = []
+  nfBuf : c.fifo = false → ∀ e ∈ p.deliverBuf, e.id ≠ c.ID
+  bufWF : ∀ e ∈ p.deliverBuf, WF p e
+  rbLen : ∀ tag buf, aGet p.retrieveBuf tag = some buf → buf.length = c.n
+  /-- own r-echo messages are recorded in the `send` filter -/
+  sendOk : ∀ dst m, (i, dst, m) ∈ log → m.action = rEcho →
+    0 ≤ m.sender ∧ fHas p.send m.sender.toNat m.tag = true
+  eQ : ∀ tag d, Wit c log i p.echo rEcho tag d (cnt p.eD (tag, d))
+  rQ : ∀ tag d, Wit c log i p.ready rReady tag d (cnt p.rD (tag, d))
+  dbarEQ : ∀ tag d, aGet p.dbar tag = some d → EQ c log tag d
+  dbarCnt : ∀ tag d, aGet p.dbar tag = some d → 2 * c.t + 1 ≤ cnt p.rD (tag, d)
+  /-- buffered and delivered slots of the channel have a stored payload with the agreed hash -/
+  good : ∀ tag, tag.id = c.ID → ((∃ e ∈ p.deliverBuf, e.tag = tag) ∨ (∃ v, (i, tag, v) ∈ dl)) →
+    ∃ v, aGet p.mbar tag = some v ∧ EQ c log tag (H v)
+  fifoDel : c.fifo = true → ∀ tag : Tag, tag.id = c.ID → 0 ≤ tag.sender →
+    tag.sender ≤ (c.n : Int) - 1 → 1 ≤ tag.seq → tag.seq < p.dS tag.sender.toNat →
+    ∃ v, (i, tag, v) ∈ dl
+  fifoLt : c.fifo = true → ∀ tag v, (i, tag, v) ∈ dl → tag.seq < p.dS tag.sender.toNat
+  ldel : ∀ l tag, fHas p.deliver l tag = true → l < c.n → l ∉ c.byz →
+    ∃ m, (l, i, m) ∈ log ∧ m.action = lDeliver ∧ m.tag = tag ∧ m.payload = rbVal p tag l
+  awNodup : p.awaited.Nodup
+  awDbar : ∀ tag, tag ∈ p.awaited → ∃ d, aGet p.dbar tag = some d
+  /-- non-FIFO mode: a delivered tag has its digest fixed and is not awaited (any more) -/
+  nfKnown : c.fifo = false → ∀ tag v, (i, tag, v) ∈ dl →
+    (∃ d, aGet p.dbar tag = some d) ∧ tag ∉ p.awaited
+
+/-- the invariant of the whole system -/
+structure Inv (H : Int → Int) (c : Cfg) (s : Sys) : Prop where
+  src : ∀ k dst m, (k, dst, m) ∈ s.log → c.honest k
+  /-- honest r-send messages come from `broadcast` -/
+  rsend : ∀ k dst m, (k, dst, m) ∈ s.log → m.action = rSend →
+    (k, m.tag, m.payload) ∈ s.bc ∧ m.sender = (k : Int)
+  /-- an honest r-echo carries the hash of a payload that the sender's link handed over -/
+  echoH : ∀ k dst m, (k, dst, m) ∈ s.log → m.action = rEcho →
+    ∃ v, m.payload = H v ∧ (m.sender.toNat ∉ c.byz →
+      (m.sender.toNat, k, (⟨m.id, m.sender, m.seq, rSend, v⟩ : Msg)) ∈ s.log)
+  /-- an honest party echoes one digest per tag -/
+  echoU : ∀ k dst m dst' m', (k, dst, m) ∈ s.log → (k, dst', m') ∈ s.log → m.action = rEcho →
+    m'.action = rEcho → m.tag = m'.tag → m.payload = m'.payload
+  readyEQ : ∀ k dst m, (k, dst, m) ∈ s.log → m.action = rReady → EQ c s.log m.tag m.payload
+  ldelEQ : c.fifo = true → ∀ k dst m, (k, dst, m) ∈ s.log → m.action = lDeliver → m.id = c.ID →
+    EQ c s.log m.tag (H m.payload)
+  dlWF : ∀ i tag v, (i, tag, v) ∈ s.dl → c.honest i ∧ tag.id = c.ID ∧ 0 ≤ tag.sender ∧
+    tag.sender ≤ (c.n : Int) - 1 ∧ 1 ≤ tag.seq
+  dlEQ : ∀ i tag v, (i, tag, v) ∈ s.dl → EQ c s.log tag (H v)
+  nodup : (s.dl.map fun d => (d.1, d.2.1)).Nodup
+  parties : ∀ i, c.honest i → PInv H c i (s.st i) s.log s.dl
+
+
+/-! ## 6. counting, and the safety theorems from the invariant -/
+
+/-- the standing assumptions: resilience, number of Byzantine parties, the payload hash is
+    injective (collision resistance, idealised) and never `0`.
+
+    `hH0` is NECESSARY for this implementation: in the r-ready branch a missing `mbar[tag]` is
+    represented by the digest `0`, so with a payload of hash `0` a party accepts "no payload" as
+    matching the agreed digest, buffers the slot and later delivers whatever the (Byzantine)
+    sender's r-send stores — see `HashZero.hash_zero_breaks_agreement` at the end of the file. -/
+structure Hyp (H : Int → Int) (c : Cfg) : Prop where
+  hn : 3 * c.t < c.n
+  hb : c.byz.card ≤ c.t
+  inj : Function.Injective H
+  h0 : ∀ m, H m ≠ 0
+
+theorem exists_honest_of_card {c : Cfg} (S : Finset Nat) (h : c.byz.card < S.card) :
+    ∃ l ∈ S, l ∉ c.byz :=
+  Finset.exists_mem_notMem_of_card_lt_card h
+
+theorem exists_honest_inter {H : Int → Int} {c : Cfg} (hy : Hyp H c) (S S' : Finset Nat)
+    (hS : S ⊆ Finset.range c.n) (hS' : S' ⊆ Finset.range c.n)
+    (h : c.n - c.t ≤ S.card) (h' : c.n - c.t ≤ S'.card) : ∃ l, l ∈ S ∧ l ∈ S' ∧ l ∉ c.byz := by
+  have h1 := Finset.card_union_add_card_inter S S'
+  have h2 : (S ∪ S').card ≤ c.n := by
+    have := Finset.card_le_card (Finset.union_subset hS hS')
+    simpa using this
+  have hn := hy.hn
+  have hb := hy.hb
+  have h3 : c.byz.card < (S ∩ S').card := by omega
+  obtain ⟨l, hl, hlb⟩ := exists_honest_of_card (c := c) _ h3
+  exact ⟨l, (Finset.mem_inter.1 hl).1, (Finset.mem_inter.1 hl).2, hlb⟩
+
+theorem EQ.mono {c : Cfg} {log log' : List (Nat × Nat × Msg)} {tag : Tag} {d : Int}
+    (h : EQ c log tag d) (hsub : ∀ x ∈ log, x ∈ log') : EQ c log' tag d := by
+  obtain ⟨S, h1, h2, h3⟩ := h
+  refine ⟨S, h1, h2, fun k hk hb => ?_⟩
+  obtain ⟨dst, m, hm, hrest⟩ := h3 k hk hb
+  exact ⟨dst, m, hsub _ hm, hrest⟩
+
+/-- some honest party echoed the digest of an echo quorum -/
+theorem EQ.honest {H : Int → Int} {c : Cfg} (hy : Hyp H c) {log : List (Nat × Nat × Msg)}
+    {tag : Tag} {d : Int} (h : EQ c log tag d) :
+    ∃ k dst m, k ∉ c.byz ∧ (k, dst, m) ∈ log ∧ m.action = rEcho ∧ m.tag = tag ∧ m.payload = d := by
+  obtain ⟨S, _, h2, h3⟩ := h
+  have hn := hy.hn
+  have hb := hy.hb
+  obtain ⟨k, hk, hkb⟩ := exists_honest_of_card (c := c) S (by omega)
+  obtain ⟨dst, m, hm⟩ := h3 k hk hkb
+  exact ⟨k, dst, m, hkb, hm⟩
+
+/-- two echo quorums for one tag carry the same digest -/
+theorem EQ.unique {H : Int → Int} {c : Cfg} (hy : Hyp H c) {s : Sys} (hI : Inv H c s)
+    {tag : Tag} {d d' : Int} (h : EQ c s.log tag d) (h' : EQ c s.log tag d') : d = d' := by
+  obtain ⟨S, h1, h2, h3⟩ := h
+  obtain ⟨S', h1', h2', h3'⟩ := h'
+  obtain ⟨l, hl, hl', hlb⟩ := exists_honest_inter hy S S' h1 h1' h2 h2'
+  obtain ⟨dst, m, hm, ha, ht, hp⟩ := h3 l hl hlb
+  obtain ⟨dst', m', hm', ha', ht', hp'⟩ := h3' l hl' hlb
+  rw [← hp, ← hp']
+  exact hI.echoU l dst m dst' m' hm hm' ha ha' (ht.trans ht'.symm)
+
+theorem inv_agreement {H : Int → Int} {c : Cfg} (hy : Hyp H c) {s : Sys} (hI : Inv H c s)
+    {i i' : Nat} {tag : Tag} {v v' : Int} (h : (i, tag, v) ∈ s.dl) (h' : (i', tag, v') ∈ s.dl) :
+    v = v' :=
+  hy.inj (EQ.unique hy hI (hI.dlEQ _ _ _ h) (hI.dlEQ _ _ _ h'))
+
+theorem inv_integrity {H : Int → Int} {c : Cfg} (hy : Hyp H c) {s : Sys} (hI : Inv H c s)
+    {i k : Nat} {tag : Tag} {v : Int} (h : (i, tag, v) ∈ s.dl) (hk : c.honest k)
+    (hs : tag.sender = (k : Int)) : (k, tag, v) ∈ s.bc := by
+  obtain ⟨e, dst, m, _, hm, ha, ht, hp⟩ := EQ.honest hy (hI.dlEQ _ _ _ h)
+  obtain ⟨v', hv', hlog⟩ := hI.echoH e dst m hm ha
+  have hsender : m.sender = (k : Int) := by rw [← hs, ← ht]; rfl
+  have hto : m.sender.toNat = k := by rw [hsender]; simp
+  rw [hto] at hlog
+  obtain ⟨hbc, _⟩ := hI.rsend k e _ (hlog hk.2) rfl
+  have hvv : v = v' := hy.inj (by rw [← hv', hp])
+  have htag : (⟨m.id, m.sender, m.seq, rSend, v'⟩ : Msg).tag = tag := by rw [← ht]; rfl
+  rw [htag] at hbc
+  rw [hvv]; exact hbc
+
+
+/-! ## 7. the invariant is inductive -/
+
+theorem replicate_getD_le (n k : Nat) : (List.replicate n (1 : Int)).getD k 0 ≤ 1 := by
+  simp only [List.getD_eq_getElem?_getD, List.getElem?_replicate]
+  split_ifs <;> simp
+
+theorem pinv_init (H : Int → Int) (c : Cfg) (i : Nat) : PInv H c i (initParty c i) [] [] where
+  cn := rfl
+  ct := rfl
+  cj := rfl
+  cID := rfl
+  cfifo := rfl
+  cskip := rfl
+  cbuf := rfl
+  clen := by simp [initParty, Party.init]
+  nfRetr := fun _ => rfl
+  nfBuf := by intro _ e he; cases he
+  bufWF := by intro e he; cases he
+  rbLen := by intro tag buf h; cases h
+  sendOk := by intro dst m h; cases h
+  eQ := by intro tag d; exact ⟨∅, rfl, by simp⟩
+  rQ := by intro tag d; exact ⟨∅, rfl, by simp⟩
+  dbarEQ := by intro tag d h; cases h
+  dbarCnt := by intro tag d h; cases h
+  good := by
+    intro tag _ h
+    rcases h with ⟨e, he, _⟩ | ⟨v, hv⟩
+    · cases he
+    · cases hv
+  fifoDel := by
+    intro _ tag _ _ _ h1 h2
+    have : (initParty c i).dS tag.sender.toNat ≤ 1 := replicate_getD_le _ _
+    omega
+  fifoLt := by intro _ tag v h; cases h
+  ldel := by intro l tag h; cases h
+  awNodup := List.nodup_nil
+  awDbar := by intro tag h; cases h
+  nfKnown := by intro _ tag v h; cases h
+
+theorem inv_init (H : Int → Int) (c : Cfg) : Inv H c (Sys.init c) where
+  src := by intro k dst m h; cases h
+  rsend := by intro k dst m h; cases h
+  echoH := by intro k dst m h; cases h
+  echoU := by intro k dst m dst' m' h; cases h
+  readyEQ := by intro k dst m h; cases h
+  ldelEQ := by intro _ k dst m h; cases h
+  dlWF := by intro i tag v h; cases h
+  dlEQ := by intro i tag v h; cases h
+  nodup := List.nodup_nil
+  parties := fun i _ => pinv_init H c i
+
+theorem Wit.mono {c : Cfg} {log log' : List (Nat × Nat × Msg)} {i : Nat} {f f' : Filter} {a : Int}
+    {tag : Tag} {d : Int} {k : Nat} (h : Wit c log i f a tag d k) (hsub : ∀ x ∈ log, x ∈ log')
+    (hf : ∀ l, fHas f l tag = true → fHas f' l tag = true) : Wit c log' i f' a tag d k := by
+  obtain ⟨S, h1, h2⟩ := h
+  refine ⟨S, h1, fun l hl => ?_⟩
+  obtain ⟨h3, h4, h5⟩ := h2 l hl
+  refine ⟨h3, hf l h4, fun hb => ?_⟩
+  obtain ⟨m, hm, hrest⟩ := h5 hb
+  exact ⟨m, hsub _ hm, hrest⟩
+
+/-- Stage B: the log and the delivery list grow -/
+theorem PInv.mono {H : Int → Int} {c : Cfg} {k : Nat} {p : Party}
+    {log log' : List (Nat × Nat × Msg)} {dl dl' : List (Nat × Tag × Int)}
+    (hP : PInv H c k p log dl) (hsub : ∀ x ∈ log, x ∈ log')
+    (hown : ∀ dst m, (k, dst, m) ∈ log' → m.action = rEcho →
+      (k, dst, m) ∈ log ∨ (0 ≤ m.sender ∧ fHas p.send m.sender.toNat m.tag = true))
+    (hdl : ∀ tag v, (k, tag, v) ∈ dl' ↔ (k, tag, v) ∈ dl) : PInv H c k p log' dl' :=
+  { hP with
+    sendOk := by
+      intro dst m hm ha
+      rcases hown dst m hm ha with h | h
+      · exact hP.sendOk dst m h ha
+      · exact h
+    eQ := fun tag d => (hP.eQ tag d).mono hsub (fun _ h => h)
+    rQ := fun tag d => (hP.rQ tag d).mono hsub (fun _ h => h)
+    dbarEQ := fun tag d h => (hP.dbarEQ tag d h).mono hsub
+    good := by
+      intro tag hid h
+      have h' : (∃ e ∈ p.deliverBuf, e.tag = tag) ∨ (∃ v, (k, tag, v) ∈ dl) := by
+        rcases h with h | ⟨v, hv⟩
+        · exact Or.inl h
+        · exact Or.inr ⟨v, (hdl tag v).1 hv⟩
+      obtain ⟨v, hv, he⟩ := hP.good tag hid h'
+      exact ⟨v, hv, he.mono hsub⟩
+    fifoDel := by
+      intro hf tag h1 h2 h3 h4 h5
+      obtain ⟨v, hv⟩ := hP.fifoDel hf tag h1 h2 h3 h4 h5
+      exact ⟨v, (hdl tag v).2 hv⟩
+    fifoLt := fun hf tag v h => hP.fifoLt hf tag v ((hdl tag v).1 h)
+    ldel := by
+      intro l tag h1 h2 h3
+      obtain ⟨m, hm, hrest⟩ := hP.ldel l tag h1 h2 h3
+      exact ⟨m, hsub _ hm, hrest⟩
+    nfKnown := fun hf tag v h => hP.nfKnown hf tag v ((hdl tag v).1 h) }
+
+theorem mem_tagMsgs {i k dst : Nat} {m : Msg} {ms : Sent} :
+    (k, dst, m) ∈ tagMsgs i ms ↔ k = i ∧ (dst, m) ∈ ms := by
+  unfold tagMsgs
+  simp only [List.mem_map, Prod.mk.injEq]
+  constructor
+  · rintro ⟨x, hx, rfl, rfl, rfl⟩
+    exact ⟨rfl, hx⟩
+  · rintro ⟨rfl, hx⟩
+    exact ⟨(dst, m), hx, rfl, rfl, rfl⟩
+
+theorem upd_same (st : Nat → Party) (i : Nat) (p : Party) : upd st i p i = p := by simp [upd]
+theorem upd_ne (st : Nat → Party) (i k : Nat) (p : Party) (h : k ≠ i) : upd st i p k = st k := by
+  simp [upd, h]
+
+/-- what must be known about the messages `ms` that party `i` (new state `q'`) adds to the log -/
+structure NewOk (H : Int → Int) (c : Cfg) (s : Sys) (i : Nat) (q' : Party) (ms : Sent) : Prop where
+  nsend : ∀ x ∈ ms, x.2.action ≠ rSend
+  echo : ∀ x ∈ ms, x.2.action = rEcho →
+    0 ≤ x.2.sender ∧ fHas q'.send x.2.sender.toNat x.2.tag = true ∧
+    (∃ v, x.2.payload = H v ∧ (x.2.sender.toNat ∉ c.byz →
+      (x.2.sender.toNat, i, (⟨x.2.id, x.2.sender, x.2.seq, rSend, v⟩ : Msg)) ∈ s.log)) ∧
+    (∀ dst m, (i, dst, m) ∈ s.log → m.action = rEcho → m.tag = x.2.tag → m.payload = x.2.payload) ∧
+    (∀ y ∈ ms, y.2.action = rEcho → y.2.tag = x.2.tag → y.2.payload = x.2.payload)
+  ready : ∀ x ∈ ms, x.2.action = rReady → EQ c s.log x.2.tag x.2.payload
+  ldel : c.fifo = true → ∀ x ∈ ms, x.2.action = lDeliver → x.2.id = c.ID →
+    EQ c s.log x.2.tag (H x.2.payload)
+
+/-- messages that no invariant talks about -/
+def Quiet (ms : Sent) : Prop :=
+  ∀ x ∈ ms, x.2.action ≠ rSend ∧ x.2.action ≠ rEcho ∧ x.2.action ≠ rReady ∧ x.2.action ≠ lDeliver
+
+theorem NewOk.of_quiet {H : Int → Int} {c : Cfg} {s : Sys} {i : Nat} {q' : Party} {ms : Sent}
+    (h : Quiet ms) : NewOk H c s i q' ms where
+  nsend := fun x hx => (h x hx).1
+  echo := fun x hx ha => absurd ha (h x hx).2.1
+  ready := fun x hx ha => absurd ha (h x hx).2.2.1
+  ldel := fun _ x hx ha => absurd ha (h x hx).2.2.2
+
+/-- T1: party `i` changes its state and sends messages; nothing is delivered -/
+theorem inv_T1 {H : Int → Int} {c : Cfg} {s : Sys} (hI : Inv H c s) {i : Nat} (hi : c.honest i)
+    (q' : Party) (ms : Sent) (hP : PInv H c i q' s.log s.dl) (hN : NewOk H c s i q' ms) :
+    Inv H c ⟨upd s.st i q', s.log ++ tagMsgs i ms, s.bc, s.dl⟩ := by
+  have hsub : ∀ x ∈ s.log, x ∈ s.log ++ tagMsgs i ms := fun x hx => List.mem_append_left _ hx
+  have hsplit : ∀ k dst m, (k, dst, m) ∈ s.log ++ tagMsgs i ms →
+      (k, dst, m) ∈ s.log ∨ (k = i ∧ (dst, m) ∈ ms) := by
+    intro k dst m h
+    rcases List.mem_append.1 h with h | h
+    · exact Or.inl h
+    · exact Or.inr (mem_tagMsgs.1 h)
+  refine
+    { src := ?_, rsend := ?_, echoH := ?_, echoU := ?_, readyEQ := ?_, ldelEQ := ?_,
+      dlWF := hI.dlWF, dlEQ := fun j tag v h => (hI.dlEQ j tag v h).mono hsub,
+      nodup := hI.nodup, parties := ?_ }
+  · intro k dst m h
+    rcases hsplit k dst m h with h | ⟨rfl, _⟩
+    · exact hI.src k dst m h
+    · exact hi
+  · intro k dst m h ha
+    rcases hsplit k dst m h with h | ⟨rfl, hms⟩
+    · exact hI.rsend k dst m h ha
+    · exact absurd ha (hN.nsend (dst, m) hms)
+  · intro k dst m h ha
+    rcases hsplit k dst m h with h | ⟨rfl, hms⟩
+    · obtain ⟨v, hv, hl⟩ := hI.echoH k dst m h ha
+      exact ⟨v, hv, fun hb => hsub _ (hl hb)⟩
+    · obtain ⟨_, _, ⟨v, hv, hl⟩, _⟩ := hN.echo (dst, m) hms ha
+      exact ⟨v, hv, fun hb => hsub _ (hl hb)⟩
+  · intro k dst m dst' m' h h' ha ha' ht
+    rcases hsplit k dst m h with hl | ⟨rfl, hms⟩
+    · rcases hsplit k dst' m' h' with hl' | ⟨rfl, hms'⟩
+      · exact hI.echoU k dst m dst' m' hl hl' ha ha' ht
+      · obtain ⟨_, _, _, hold, _⟩ := hN.echo (dst', m') hms' ha'
+        exact hold dst m hl ha ht
+    · rcases hsplit k dst' m' h' with hl' | ⟨_, hms'⟩
+      · obtain ⟨_, _, _, hold, _⟩ := hN.echo (dst, m) hms ha
+        exact (hold dst' m' hl' ha' ht.symm).symm
+      · obtain ⟨_, _, _, _, hnew⟩ := hN.echo (dst, m) hms ha
+        exact (hnew (dst', m') hms' ha' ht.symm).symm
+  · intro k dst m h ha
+    rcases hsplit k dst m h with h | ⟨rfl, hms⟩
+    · exact (hI.readyEQ k dst m h ha).mono hsub
+    · exact (hN.ready (dst, m) hms ha).mono hsub
+  · intro hf k dst m h ha hid
+    rcases hsplit k dst m h with h | ⟨rfl, hms⟩
+    · exact (hI.ldelEQ hf k dst m h ha hid).mono hsub
+    · exact (hN.ldel hf (dst, m) hms ha hid).mono hsub
+  · intro k hk
+    by_cases hki : k = i
+    · subst hki
+      show PInv H c k (upd s.st k q' k) _ _
+      rw [upd_same]
+      refine hP.mono hsub ?_ (fun _ _ => Iff.rfl)
+      intro dst m h ha
+      rcases hsplit k dst m h with h | ⟨_, hms⟩
+      · exact Or.inl h
+      · obtain ⟨h1, h2, _⟩ := hN.echo (dst, m) hms ha
+        exact Or.inr ⟨h1, h2⟩
+    · show PInv H c k (upd s.st i q' k) _ _
+      rw [upd_ne _ _ _ _ hki]
+      refine (hI.parties k hk).mono hsub ?_ (fun _ _ => Iff.rfl)
+      intro dst m h ha
+      rcases hsplit k dst m h with h | ⟨rfl, _⟩
+      · exact Or.inl h
+      · exact absurd rfl hki
+
+theorem getD_set_self (l : List Int) (w : Nat) (x : Int) (h : w < l.length) :
+    (l.set w x).getD w 0 = x := by
+  simp [List.getD_eq_getElem?_getD, h]
+
+theorem getD_set_ne (l : List Int) (w k : Nat) (x : Int) (h : k ≠ w) :
+    (l.set w x).getD k 0 = l.getD k 0 := by
+  simp [List.getD_eq_getElem?_getD, Ne.symm h]
+
+theorem toNat_inj_of_nonneg {a b : Int} (ha : 0 ≤ a) (hb : 0 ≤ b) (h : a.toNat = b.toNat) : a = b := by
+  omega
+
+/-- T2/T3: party `i` delivers `m` for `tag` -/
+theorem inv_deliver {H : Int → Int} {c : Cfg} {s : Sys} (hI : Inv H c s) {i : Nat}
+    (hi : c.honest i) (tag : Tag) (m : Int) (B : List Msg) (p : Party) (hp : s.st i = p)
+    (hB : ∀ x ∈ B, x ∈ p.deliverBuf)
+    (hid : tag.id = c.ID) (hs0 : 0 ≤ tag.sender) (hs1 : tag.sender ≤ (c.n : Int) - 1)
+    (hseq1 : 1 ≤ tag.seq) (hseq : c.fifo = true → tag.seq = p.dS tag.sender.toNat)
+    (hm : aGet p.mbar tag = some m) (hgood : EQ c s.log tag (H m))
+    (hnf : c.fifo = false → (∀ v, (i, tag, v) ∉ s.dl) ∧ (∃ d, aGet p.dbar tag = some d) ∧
+      tag ∉ p.awaited) :
+    Inv H c ⟨upd s.st i { p with
+        deliverS := p.deliverS.set tag.sender.toNat (p.dS tag.sender.toNat + 1),
+        deliverBuf := B }, s.log, s.bc, s.dl ++ [(i, tag, m)]⟩ := by
+  have hP : PInv H c i p s.log s.dl := hp ▸ hI.parties i hi
+  have hwho : tag.sender.toNat < p.deliverS.length := by rw [hP.clen]; omega
+  obtain ⟨p', hp'⟩ : ∃ p' : Party, p' = { p with
+        deliverS := p.deliverS.set tag.sender.toNat (p.dS tag.sender.toNat + 1),
+        deliverBuf := B } := ⟨_, rfl⟩
+  have hself : p'.dS tag.sender.toNat = p.dS tag.sender.toNat + 1 := by
+    rw [hp']; exact getD_set_self _ _ _ hwho
+  have hne : ∀ w, w ≠ tag.sender.toNat → p'.dS w = p.dS w := by
+    intro w hw; rw [hp']; exact getD_set_ne _ _ _ _ hw
+  rw [← hp']
+  have hfresh : ∀ v, (i, tag, v) ∉ s.dl := by
+    intro v hv
+    cases hf : c.fifo with
+    | true =>
+      have := hP.fifoLt hf tag v hv
+      have := hseq hf
+      omega
+    | false => exact (hnf hf).1 v hv
+  have hsplit : ∀ k tag' v, (k, tag', v) ∈ s.dl ++ [(i, tag, m)] →
+      (k, tag', v) ∈ s.dl ∨ (k = i ∧ tag' = tag ∧ v = m) := by
+    intro k tag' v h
+    rcases List.mem_append.1 h with h | h
+    · exact Or.inl h
+    · simp only [List.mem_singleton, Prod.mk.injEq] at h
+      exact Or.inr h
+  refine
+    { src := hI.src, rsend := hI.rsend, echoH := hI.echoH, echoU := hI.echoU,
+      readyEQ := hI.readyEQ, ldelEQ := hI.ldelEQ, dlWF := ?_, dlEQ := ?_, nodup := ?_,
+      parties := ?_ }
+  · intro k tag' v h
+    rcases hsplit k tag' v h with h | ⟨rfl, rfl, rfl⟩
+    · exact hI.dlWF k tag' v h
+    · exact ⟨hi, hid, hs0, hs1, hseq1⟩
+  · intro k tag' v h
+    rcases hsplit k tag' v h with h | ⟨rfl, rfl, rfl⟩
+    · exact hI.dlEQ k tag' v h
+    · exact hgood
+  · show ((s.dl ++ [(i, tag, m)]).map fun d => (d.1, d.2.1)).Nodup
+    rw [List.map_append, List.nodup_append]
+    refine ⟨hI.nodup, by simp, ?_⟩
+    intro a ha b hb
+    simp only [List.map_cons, List.map_nil, List.mem_singleton] at hb
+    subst hb
+    rintro rfl
+    obtain ⟨⟨k, tag', v⟩, hd, heq⟩ := List.mem_map.1 ha
+    simp only [Prod.mk.injEq] at heq
+    obtain ⟨rfl, rfl⟩ := heq
+    exact hfresh v hd
+  · intro k hk
+    by_cases hki : k = i
+    · subst hki
+      show PInv H c k (upd s.st k _ k) _ _
+      rw [upd_same]
+      have hmono : ∀ w, p.dS w ≤ p'.dS w := by
+        intro w
+        by_cases hw : w = tag.sender.toNat
+        · subst hw; omega
+        · rw [hne w hw]
+      subst hp'
+      exact
+        { hP with
+          clen := by simp [hP.clen]
+          nfBuf := fun hf e he => hP.nfBuf hf e (hB e he)
+          bufWF := fun e he => hP.bufWF e (hB e he)
+          good := by
+            intro tag' hid' h
+            rcases h with ⟨e, he, het⟩ | ⟨v, hv⟩
+            · exact hP.good tag' hid' (Or.inl ⟨e, hB e he, het⟩)
+            · rcases hsplit k tag' v hv with hv | ⟨_, rfl, rfl⟩
+              · exact hP.good tag' hid' (Or.inr ⟨v, hv⟩)
+              · exact ⟨v, hm, hgood⟩
+          fifoDel := by
+            intro hf tag' h1 h2 h3 h4 h5
+            by_cases hw : tag'.sender.toNat = tag.sender.toNat
+            · rw [hw, hself] at h5
+              by_cases hlt : tag'.seq < p.dS tag.sender.toNat
+              · obtain ⟨v, hv⟩ := hP.fifoDel hf tag' h1 h2 h3 h4 (by rw [hw]; exact hlt)
+                exact ⟨v, List.mem_append_left _ hv⟩
+              · have hseq' := hseq hf
+                have : tag' = tag := by
+                  have e1 : tag'.sender = tag.sender := toNat_inj_of_nonneg h2 hs0 hw
+                  have e2 : tag'.seq = tag.seq := by omega
+                  have e3 : tag'.id = tag.id := by rw [h1, hid]
+                  cases tag'; cases tag; simp_all
+                subst this
+                exact ⟨m, List.mem_append_right _ (List.mem_singleton.2 rfl)⟩
+            · rw [hne _ hw] at h5
+              obtain ⟨v, hv⟩ := hP.fifoDel hf tag' h1 h2 h3 h4 h5
+              exact ⟨v, List.mem_append_left _ hv⟩
+          fifoLt := by
+            intro hf tag' v hv
+            rcases hsplit k tag' v hv with hv | ⟨_, rfl, rfl⟩
+            · have := hP.fifoLt hf tag' v hv
+              have := hmono tag'.sender.toNat
+              omega
+            · have := hseq hf
+              rw [hself]
+              omega
+          nfKnown := by
+            intro hf tag' v hv
+            rcases hsplit k tag' v hv with hv | ⟨_, rfl, rfl⟩
+            · exact hP.nfKnown hf tag' v hv
+            · exact (hnf hf).2 }
+    · show PInv H c k (upd s.st i _ k) _ _
+      rw [upd_ne _ _ _ _ hki]
+      refine (hI.parties k hk).mono (fun _ h => h) (fun dst m h _ => Or.inl h) ?_
+      intro tag' v
+      constructor
+      · intro h
+        rcases hsplit k tag' v h with h | ⟨rfl, _⟩
+        · exact h
+        · exact absurd rfl hki
+      · exact fun h => List.mem_append_left _ h
+
+theorem upd_upd (st : Nat → Party) (i : Nat) (p q : Party) : upd (upd st i p) i q = upd st i q := by
+  funext k; unfold upd; split_ifs <;> rfl
+
+theorem upd_self (st : Nat → Party) (i : Nat) : upd st i (st i) = st := by
+  funext k; unfold upd; split_ifs with h
+  · rw [h]
+  · rfl
+
+theorem inv_congr {H : Int → Int} {c : Cfg} {s s' : Sys} (h : Inv H c s) (h1 : s.st = s'.st)
+    (h2 : s.log = s'.log) (h3 : s.bc = s'.bc) (h4 : s.dl = s'.dl) : Inv H c s' := by
+  cases s; cases s'; simp only at h1 h2 h3 h4; subst h1 h2 h3 h4; exact h
+
+/-- the delivery list after an outcome -/
+def dlAfter (dl : List (Nat × Tag × Int)) (i : Nat) (tag : Tag) : Outcome → List (Nat × Tag × Int)
+  | .delivered _ m => dl ++ [(i, tag, m)]
+  | _ => dl
+
+/-- T2: "deliver or buffer" for a slot whose stored payload has the agreed hash -/
+theorem inv_dob {H : Int → Int} {c : Cfg} {s : Sys} (hI : Inv H c s) {i : Nat} (hi : c.honest i)
+    (p3 : Party) (hp : s.st i = p3) (msg : Msg) (wf : WF p3 msg)
+    (hgood : msg.id = c.ID → ∃ v, aGet p3.mbar msg.tag = some v ∧ EQ c s.log msg.tag (H v))
+    (hnf : c.fifo = false → msg.id = c.ID → (∀ v, (i, msg.tag, v) ∉ s.dl) ∧
+      (∃ d, aGet p3.dbar msg.tag = some d) ∧ msg.tag ∉ p3.awaited) :
+    Inv H c ⟨upd s.st i (deliverOrBuffer p3 msg []).party, s.log, s.bc,
+      dlAfter s.dl i msg.tag (deliverOrBuffer p3 msg []).out⟩ := by
+  have hP : PInv H c i p3 s.log s.dl := hp ▸ hI.parties i hi
+  rcases dob_cases p3 msg with ⟨hid, _, hm, _⟩ | ⟨m, hid, hseq, hm, heq⟩ | ⟨hcond, heq⟩
+  · exfalso
+    obtain ⟨v, hv, _⟩ := hgood (hid.trans hP.cID)
+    rw [hm] at hv; cases hv
+  · rw [heq]
+    have hid' : msg.id = c.ID := hid.trans hP.cID
+    obtain ⟨v, hv, hEQ⟩ := hgood hid'
+    have hvm : v = m := by rw [hm] at hv; cases hv; rfl
+    subst hvm
+    obtain ⟨w0, w1, w2⟩ := wf
+    rw [hP.cn] at w1
+    refine inv_deliver hI hi msg.tag v p3.deliverBuf p3 hp (fun _ h => h) hid' w0 w1 w2
+      (fun hf => hseq (hP.cfifo.trans hf)) hm hEQ ?_
+    intro hf
+    exact hnf hf hid'
+  · rw [heq]
+    have hP' : PInv H c i { p3 with deliverBuf := p3.deliverBuf ++ [msg] } s.log s.dl :=
+      { hP with
+        nfBuf := by
+          intro hf e he
+          rcases List.mem_append.1 he with he | he
+          · exact hP.nfBuf hf e he
+          · rw [List.mem_singleton] at he
+            subst he
+            rcases hcond with h | ⟨h, _⟩
+            · rw [← hP.cID]; exact h
+            · rw [hP.cfifo, hf] at h; cases h
+        bufWF := by
+          intro e he
+          rcases List.mem_append.1 he with he | he
+          · exact hP.bufWF e he
+          · rw [List.mem_singleton] at he
+            subst he; exact wf
+        good := by
+          intro tag hid h
+          rcases h with ⟨e, he, het⟩ | h
+          · rcases List.mem_append.1 he with he | he
+            · exact hP.good tag hid (Or.inl ⟨e, he, het⟩)
+            · rw [List.mem_singleton] at he
+              subst he
+              subst het
+              exact hgood hid
+          · exact hP.good tag hid (Or.inr h) }
+    have := inv_T1 hI hi _ [] hP' (NewOk.of_quiet (by intro x hx; cases hx))
+    exact inv_congr this rfl (by simp [tagMsgs]) rfl rfl
+
+/-- Stage A for all the branches that only touch first-time filters -/
+theorem PInv.sameCore {H : Int → Int} {c : Cfg} {i : Nat} {q q' : Party}
+    {log : List (Nat × Nat × Msg)} {dl : List (Nat × Tag × Int)}
+    (hc : SameCore q q') (hP : PInv H c i q log dl) : PInv H c i q' log dl where
+  cn := hc.n.trans hP.cn
+  ct := hc.t.trans hP.ct
+  cj := hc.j.trans hP.cj
+  cID := hc.ID.trans hP.cID
+  cfifo := hc.fifo.trans hP.cfifo
+  cskip := hc.fifoSkip.trans hP.cskip
+  cbuf := by rw [hc.bufMsg, hc.n]; exact hP.cbuf
+  clen := by rw [hc.deliverS]; exact hP.clen
+  nfRetr := fun hf => by rw [hc.retrieve]; exact hP.nfRetr hf
+  nfBuf := by rw [hc.deliverBuf]; exact hP.nfBuf
+  bufWF := by unfold WF; rw [hc.deliverBuf, hc.n]; exact hP.bufWF
+  rbLen := by rw [hc.retrieveBuf]; exact hP.rbLen
+  sendOk := fun dst m h ha =>
+    ⟨(hP.sendOk dst m h ha).1, hc.send _ _ (hP.sendOk dst m h ha).2⟩
+  eQ := fun tag d => by
+    rw [hc.eD]; exact (hP.eQ tag d).mono (fun _ h => h) (fun l h => hc.echo l tag h)
+  rQ := fun tag d => by
+    rw [hc.rD]; exact (hP.rQ tag d).mono (fun _ h => h) (fun l h => hc.ready l tag h)
+  dbarEQ := by rw [hc.dbar]; exact hP.dbarEQ
+  dbarCnt := by rw [hc.dbar, hc.rD]; exact hP.dbarCnt
+  good := by rw [hc.deliverBuf, hc.mbar]; exact hP.good
+  fifoDel := by unfold Party.dS; rw [hc.deliverS]; exact hP.fifoDel
+  fifoLt := by unfold Party.dS; rw [hc.deliverS]; exact hP.fifoLt
+  ldel := by unfold rbVal; rw [hc.deliver, hc.retrieveBuf, hc.n]; exact hP.ldel
+  awNodup := by rw [hc.awaited]; exact hP.awNodup
+  awDbar := by rw [hc.awaited, hc.dbar]; exact hP.awDbar
+  nfKnown := by rw [hc.dbar, hc.awaited]; exact hP.nfKnown
+
+/-- Stage A for the housekeeping part of `phaseBuffer` -/
+theorem PInv.hk {H : Int → Int} {c : Cfg} {i : Nat} {p : Party}
+    {log : List (Nat × Nat × Msg)} {dl : List (Nat × Tag × Int)} (R : Filter)
+    (hR : p.fifo = false → R = p.retrieve)
+    (hP : PInv H c i p log dl) : PInv H c i (hkParty p R) log dl :=
+  { hP with
+    nfRetr := by
+      intro hf
+      show R = []
+      rw [hR (hP.cfifo.trans hf)]; exact hP.nfRetr hf
+    nfBuf := fun hf e he => hP.nfBuf hf e (List.mem_of_mem_filter he)
+    bufWF := fun e he => hP.bufWF e (List.mem_of_mem_filter he)
+    good := by
+      intro tag hid h
+      rcases h with ⟨e, he, het⟩ | h
+      · exact hP.good tag hid (Or.inl ⟨e, List.mem_of_mem_filter he, het⟩)
+      · exact hP.good tag hid (Or.inr h) }
+
+theorem PInv.echoNew {H : Int → Int} {c : Cfg} {i : Nat} {q : Party}
+    {log : List (Nat × Nat × Msg)} {dl : List (Nat × Tag × Int)} (hP : PInv H c i q log dl)
+    (l : Nat) (tag : Tag) (v : Int) (hm : aGet q.mbar tag = none) :
+    PInv H c i { q with send := fIns q.send l tag, mbar := aSet q.mbar tag v } log dl :=
+  { hP with
+    sendOk := fun dst m h ha =>
+      ⟨(hP.sendOk dst m h ha).1, fHas_fIns_mono _ _ _ _ _ (hP.sendOk dst m h ha).2⟩
+    good := by
+      intro tag' hid h
+      obtain ⟨v', hv', he⟩ := hP.good tag' hid h
+      by_cases ht : tag' = tag
+      · subst ht; rw [hm] at hv'; cases hv'
+      · exact ⟨v', by show aGet (aSet q.mbar tag v) tag' = some v'
+                      rw [aGet_aSet_ne _ _ _ _ ht]; exact hv', he⟩
+      }
+
+theorem Wit.ins {c : Cfg} {log : List (Nat × Nat × Msg)} {i : Nat} {f : Filter} {a : Int}
+    {tag : Tag} {d : Int} {k : Nat} (h : Wit c log i f a tag d k) (l : Nat) (msg : Msg)
+    (hnew : fHas f l tag = false) (hl : l < c.n) (hin : l ∉ c.byz → (l, i, msg) ∈ log)
+    (ha : msg.action = a) (ht : msg.tag = tag) (hp : msg.payload = d) :
+    Wit c log i (fIns f l tag) a tag d (k + 1) := by
+  obtain ⟨S, h1, h2⟩ := h
+  have hnot : l ∉ S := by
+    intro hl'
+    have := (h2 l hl').2.1
+    rw [hnew] at this; cases this
+  refine ⟨insert l S, by rw [Finset.card_insert_of_notMem hnot, h1], ?_⟩
+  intro l' hl'
+  rcases Finset.mem_insert.1 hl' with rfl | hl'
+  · exact ⟨hl, fHas_fIns_self _ _ _, fun hb => ⟨msg, hin hb, ha, ht, hp⟩⟩
+  · obtain ⟨h3, h4, h5⟩ := h2 l' hl'
+    exact ⟨h3, fHas_fIns_mono _ _ _ _ _ h4, h5⟩
+
+theorem PInv.echoCount {H : Int → Int} {c : Cfg} {i : Nat} {q : Party}
+    {log : List (Nat × Nat × Msg)} {dl : List (Nat × Tag × Int)} (hP : PInv H c i q log dl)
+    (l : Nat) (msg : Msg) (hact : msg.action = rEcho) (hnew : fHas q.echo l msg.tag = false)
+    (hl : l < c.n) (hin : l ∉ c.byz → (l, i, msg) ∈ log) :
+    PInv H c i (echoPost q l msg) log dl :=
+  { hP with
+    eQ := by
+      intro tag d
+      show Wit c log i (fIns q.echo l msg.tag) rEcho tag d
+        (cnt (cntInc q.eD (msg.tag, msg.payload)).1 (tag, d))
+      by_cases hk : (tag, d) = (msg.tag, msg.payload)
+      · obtain ⟨rfl, rfl⟩ := Prod.mk.inj hk
+        rw [cnt_cntInc_self]
+        exact (hP.eQ _ _).ins l msg hnew hl hin hact rfl rfl
+      · rw [cnt_cntInc_ne _ _ _ hk]
+        exact (hP.eQ tag d).mono (fun _ h => h) (fun l' h => fHas_fIns_mono _ _ _ _ _ h)
+    rQ := by
+      intro tag d
+      show Wit c log i q.ready rReady tag d
+        (cnt (cntTouch q.rD (msg.tag, msg.payload)).1 (tag, d))
+      rw [cnt_cntTouch]; exact hP.rQ tag d
+    dbarCnt := by
+      intro tag d hd
+      show 2 * c.t + 1 ≤ cnt (cntTouch q.rD (msg.tag, msg.payload)).1 (tag, d)
+      rw [cnt_cntTouch]; exact hP.dbarCnt tag d hd }
+
+theorem PInv.readyCount {H : Int → Int} {c : Cfg} {i : Nat} {q : Party}
+    {log : List (Nat × Nat × Msg)} {dl : List (Nat × Tag × Int)} (hP : PInv H c i q log dl)
+    (l : Nat) (msg : Msg) (hact : msg.action = rReady) (hnew : fHas q.ready l msg.tag = false)
+    (hl : l < c.n) (hin : l ∉ c.byz → (l, i, msg) ∈ log) :
+    PInv H c i (readyPost q l msg) log dl :=
+  { hP with
+    rQ := by
+      intro tag d
+      show Wit c log i (fIns q.ready l msg.tag) rReady tag d
+        (cnt (cntInc q.rD (msg.tag, msg.payload)).1 (tag, d))
+      by_cases hk : (tag, d) = (msg.tag, msg.payload)
+      · obtain ⟨rfl, rfl⟩ := Prod.mk.inj hk
+        rw [cnt_cntInc_self]
+        exact (hP.rQ _ _).ins l msg hnew hl hin hact rfl rfl
+      · rw [cnt_cntInc_ne _ _ _ hk]
+        exact (hP.rQ tag d).mono (fun _ h => h) (fun l' h => fHas_fIns_mono _ _ _ _ _ h)
+    eQ := by
+      intro tag d
+      show Wit c log i q.echo rEcho tag d
+        (cnt (cntTouch q.eD (msg.tag, msg.payload)).1 (tag, d))
+      rw [cnt_cntTouch]; exact hP.eQ tag d
+    dbarCnt := by
+      intro tag d hd
+      show 2 * c.t + 1 ≤ cnt (cntInc q.rD (msg.tag, msg.payload)).1 (tag, d)
+      have := hP.dbarCnt tag d hd
+      by_cases hk : (tag, d) = (msg.tag, msg.payload)
+      · obtain ⟨rfl, rfl⟩ := Prod.mk.inj hk
+        rw [cnt_cntInc_self]; omega
+      · rw [cnt_cntInc_ne _ _ _ hk]; exact this }
+
+theorem PInv.setDbar {H : Int → Int} {c : Cfg} {i : Nat} {p : Party}
+    {log : List (Nat × Nat × Msg)} {dl : List (Nat × Tag × Int)} (hP : PInv H c i p log dl)
+    (tag : Tag) (d : Int) (hnone : aGet p.dbar tag = none) (hEQ : EQ c log tag d)
+    (hcnt : 2 * c.t + 1 ≤ cnt p.rD (tag, d)) :
+    PInv H c i { p with dbar := aSet p.dbar tag d } log dl :=
+  { hP with
+    dbarEQ := by
+      intro tag' d' h
+      change aGet (aSet p.dbar tag d) tag' = some d' at h
+      by_cases ht : tag' = tag
+      · subst ht; rw [aGet_aSet_self] at h; cases h; exact hEQ
+      · rw [aGet_aSet_ne _ _ _ _ ht] at h; exact hP.dbarEQ tag' d' h
+    dbarCnt := by
+      intro tag' d' h
+      change aGet (aSet p.dbar tag d) tag' = some d' at h
+      by_cases ht : tag' = tag
+      · subst ht; rw [aGet_aSet_self] at h; cases h; exact hcnt
+      · rw [aGet_aSet_ne _ _ _ _ ht] at h; exact hP.dbarCnt tag' d' h
+    awDbar := by
+      intro tag' h
+      show ∃ d', aGet (aSet p.dbar tag d) tag' = some d'
+      by_cases ht : tag' = tag
+      · subst ht; exact ⟨d, aGet_aSet_self _ _ _⟩
+      · rw [aGet_aSet_ne _ _ _ _ ht]; exact hP.awDbar tag' h
+    nfKnown := by
+      intro hf tag' v hv
+      obtain ⟨hd, haw⟩ := hP.nfKnown hf tag' v hv
+      refine ⟨?_, haw⟩
+      show ∃ d', aGet (aSet p.dbar tag d) tag' = some d'
+      by_cases ht : tag' = tag
+      · subst ht; exact ⟨d, aGet_aSet_self _ _ _⟩
+      · rw [aGet_aSet_ne _ _ _ _ ht]; exact hd }
+
+theorem PInv.setMbar {H : Int → Int} {c : Cfg} {i : Nat} {p : Party}
+    {log : List (Nat × Nat × Msg)} {dl : List (Nat × Tag × Int)} (hP : PInv H c i p log dl)
+    (tag : Tag) (v : Int) (hEQ : tag.id = c.ID → EQ c log tag (H v)) :
+    PInv H c i { p with mbar := aSet p.mbar tag v } log dl :=
+  { hP with
+    good := by
+      intro tag' hid h
+      show ∃ v', aGet (aSet p.mbar tag v) tag' = some v' ∧ _
+      by_cases ht : tag' = tag
+      · subst ht; exact ⟨v, aGet_aSet_self _ _ _, hEQ hid⟩
+      · rw [aGet_aSet_ne _ _ _ _ ht]; exact hP.good tag' hid h }
+
+theorem ldelBuf_length {H : Int → Int} {c : Cfg} {i : Nat} {q : Party}
+    {log : List (Nat × Nat × Msg)} {dl : List (Nat × Tag × Int)} (hP : PInv H c i q log dl)
+    (l : Nat) (msg : Msg) : (ldelBuf q l msg).length = c.n := by
+  unfold ldelBuf
+  rw [List.length_set]
+  cases h : aGet q.retrieveBuf msg.tag with
+  | none => simp [hP.cn]
+  | some b => simpa using hP.rbLen _ _ h
+
+theorem PInv.onLdel {H : Int → Int} {c : Cfg} {i : Nat} {q : Party}
+    {log : List (Nat × Nat × Msg)} {dl : List (Nat × Tag × Int)} (hP : PInv H c i q log dl)
+    (l : Nat) (msg : Msg) (hact : msg.action = lDeliver) (hnew : fHas q.deliver l msg.tag = false)
+    (hl : l < c.n) (hin : l ∉ c.byz → (l, i, msg) ∈ log) :
+    PInv H c i (ldelPost q l msg) log dl :=
+  { hP with
+    rbLen := by
+      intro tag buf h
+      change aGet (aSet q.retrieveBuf msg.tag (ldelBuf q l msg)) tag = some buf at h
+      by_cases ht : tag = msg.tag
+      · subst ht; rw [aGet_aSet_self] at h; cases h; exact ldelBuf_length hP l msg
+      · rw [aGet_aSet_ne _ _ _ _ ht] at h; exact hP.rbLen tag buf h
+    ldel := by
+      intro l' tag h hl' hb
+      change fHas (fIns q.deliver l msg.tag) l' tag = true at h
+      have hlen := ldelBuf_length hP l msg
+      by_cases ht : tag = msg.tag
+      · subst ht
+        have hrb : rbVal (ldelPost q l msg) msg.tag l' = (ldelBuf q l msg).getD l' 0 := by
+          unfold rbVal
+          show ((aGet (aSet q.retrieveBuf msg.tag (ldelBuf q l msg)) msg.tag).getD _).getD l' 0 = _
+          rw [aGet_aSet_self]; rfl
+        rw [hrb]
+        by_cases hll : l' = l
+        · subst hll
+          refine ⟨msg, hin hb, hact, rfl, ?_⟩
+          unfold ldelBuf
+          rw [getD_set_self]
+          unfold ldelBuf at hlen
+          rw [List.length_set] at hlen
+          omega
+        · rcases (fHas_fIns _ _ _ _ _).1 h with ⟨h1, _⟩ | h
+          · exact absurd h1 hll
+          · obtain ⟨m, hm, ha, hmt, hmp⟩ := hP.ldel l' msg.tag h hl' hb
+            refine ⟨m, hm, ha, hmt, ?_⟩
+            rw [hmp]
+            unfold ldelBuf rbVal
+            rw [getD_set_ne _ _ _ _ hll]
+      · rcases (fHas_fIns _ _ _ _ _).1 h with ⟨_, h2⟩ | h
+        · exact absurd h2 ht
+        · obtain ⟨m, hm, ha, hmt, hmp⟩ := hP.ldel l' tag h hl' hb
+          refine ⟨m, hm, ha, hmt, ?_⟩
+          rw [hmp]
+          unfold rbVal
+          show _ = ((aGet (aSet q.retrieveBuf msg.tag (ldelBuf q l msg)) tag).getD _).getD l' 0
+          rw [aGet_aSet_ne _ _ _ _ ht]; rfl }
+
+theorem agreeFind_some (p : Party) (tag : Tag) (buf : List Int) :
+    ∀ (L : List Nat) (i : Nat), agreeFind p tag buf L = some i →
+      i ∈ L ∧ fHas p.deliver i tag = true ∧ p.n - p.t ≤ agreeNum p tag buf i := by
+  intro L
+  induction L with
+  | nil => intro i h; simp [agreeFind] at h
+  | cons a L ih =>
+    intro i h
+    unfold agreeFind at h
+    split_ifs at h with h1 h2
+    · obtain ⟨h3, h4⟩ := ih i h
+      exact ⟨List.mem_cons_of_mem _ h3, h4⟩
+    · cases h
+      refine ⟨List.mem_cons_self, ?_, h2⟩
+      simp only [Bool.or_eq_true, Bool.not_eq_true', decide_eq_true_eq, not_or] at h1
+      simpa using h1.1
+    · obtain ⟨h3, h4⟩ := ih i h
+      exact ⟨List.mem_cons_of_mem _ h3, h4⟩
+
+theorem agreeNum_wit (p : Party) (tag : Tag) (buf : List Int) (i : Nat) (hi : i < p.n)
+    (hfi : fHas p.deliver i tag = true) :
+    ∃ S : Finset Nat, S.card = agreeNum p tag buf i ∧
+      ∀ k ∈ S, k < p.n ∧ fHas p.deliver k tag = true ∧ buf.getD k 0 = buf.getD i 0 := by
+  unfold agreeNum
+  set L := (List.range p.n).filter fun k =>
+    decide (i < k) && fHas p.deliver k tag && decide (k ≠ p.j) &&
+      decide (buf.getD k 0 = buf.getD i 0) with hL
+  have hnd : L.Nodup := List.Nodup.filter _ List.nodup_range
+  have hmem : ∀ k ∈ L, i < k ∧ k < p.n ∧ fHas p.deliver k tag = true ∧
+      buf.getD k 0 = buf.getD i 0 := by
+    intro k hk
+    rw [hL, List.mem_filter] at hk
+    obtain ⟨h1, h2⟩ := hk
+    simp only [Bool.and_eq_true, decide_eq_true_eq] at h2
+    exact ⟨h2.1.1.1, List.mem_range.1 h1, h2.1.1.2, h2.2⟩
+  have hnot : i ∉ L.toFinset := by
+    intro h
+    have := (hmem i (List.mem_toFinset.1 h)).1
+    omega
+  refine ⟨insert i L.toFinset, ?_, ?_⟩
+  · rw [Finset.card_insert_of_notMem hnot, List.toFinset_card_of_nodup hnd]; omega
+  · intro k hk
+    rcases Finset.mem_insert.1 hk with rfl | hk
+    · exact ⟨hi, hfi, rfl⟩
+    · exact (hmem k (List.mem_toFinset.1 hk)).2
+
+theorem Wit.toEQ {c : Cfg} {log : List (Nat × Nat × Msg)} {i : Nat} {f : Filter} {tag : Tag}
+    {d : Int} {k : Nat} (h : Wit c log i f rEcho tag d k) (hk : c.n - c.t ≤ k) : EQ c log tag d := by
+  obtain ⟨S, h1, h2⟩ := h
+  refine ⟨S, ?_, by omega, ?_⟩
+  · intro l hl; exact Finset.mem_range.2 (h2 l hl).1
+  · intro l hl hb
+    obtain ⟨m, hm⟩ := (h2 l hl).2.2 hb
+    exact ⟨i, m, hm⟩
+
+theorem Wit.honest {c : Cfg} {log : List (Nat × Nat × Msg)} {i : Nat} {f : Filter} {a : Int}
+    {tag : Tag} {d : Int} {k : Nat} (h : Wit c log i f a tag d k) (hk : c.byz.card < k) :
+    ∃ l m, (l, i, m) ∈ log ∧ m.action = a ∧ m.tag = tag ∧ m.payload = d := by
+  obtain ⟨S, h1, h2⟩ := h
+  obtain ⟨l, hl, hb⟩ := exists_honest_of_card (c := c) S (by omega)
+  obtain ⟨m, hm⟩ := (h2 l hl).2.2 hb
+  exact ⟨l, m, hm⟩
+
+theorem mem_sendAll {n : Nat} {m : Msg} {x : Nat × Msg} (h : x ∈ sendAll n m) : x.2 = m := by
+  unfold sendAll at h
+  obtain ⟨k, _, rfl⟩ := List.mem_map.1 h
+  rfl
+
+/-- T1 followed by T2 -/
+theorem inv_T1_dob {H : Int → Int} {c : Cfg} {s : Sys} (hI : Inv H c s) {i : Nat}
+    (hi : c.honest i) (p3 : Party) (hP3 : PInv H c i p3 s.log s.dl) (msg : Msg) (wf : WF p3 msg)
+    (hgood : msg.id = c.ID → ∃ v, aGet p3.mbar msg.tag = some v ∧ EQ c s.log msg.tag (H v))
+    (hnf : c.fifo = false → msg.id = c.ID → (∀ v, (i, msg.tag, v) ∉ s.dl) ∧
+      (∃ d, aGet p3.dbar msg.tag = some d) ∧ msg.tag ∉ p3.awaited) :
+    Inv H c ⟨upd s.st i (deliverOrBuffer p3 msg []).party,
+      s.log ++ tagMsgs i (deliverOrBuffer p3 msg []).sent, s.bc,
+      dlAfter s.dl i msg.tag (deliverOrBuffer p3 msg []).out⟩ := by
+  have h1 := inv_T1 hI hi p3 [] hP3 (NewOk.of_quiet (by intro x hx; cases hx))
+  have hlog : s.log ++ tagMsgs i [] = s.log := by simp [tagMsgs]
+  have h1' : Inv H c ⟨upd s.st i p3, s.log, s.bc, s.dl⟩ := inv_congr h1 rfl hlog rfl rfl
+  have h2 := inv_dob h1' hi p3 (upd_same _ _ _) msg wf hgood hnf
+  refine inv_congr h2 (upd_upd _ _ _ _) ?_ rfl rfl
+  rw [dob_sent_nil]; exact hlog.symm
+
+theorem echo_newok {H : Int → Int} {c : Cfg} {s : Sys} {i : Nat} {q q' : Party}
+    (hP : PInv H c i q s.log s.dl) {l : Nat} {msg : Msg} (wf : WF q msg)
+    (hact : msg.action = rSend) (hnew : fHas q.send l msg.tag = false)
+    (hlS : msg.sender = (l : Int)) (hin : l ∉ c.byz → (l, i, msg) ∈ s.log)
+    (hq' : fHas q'.send l msg.tag = true) :
+    NewOk H c s i q' (sendAll q.n ⟨msg.id, msg.sender, msg.seq, rEcho, H msg.payload⟩) := by
+  have hto : msg.sender.toNat = l := by rw [hlS]; simp
+  have hmsg : (⟨msg.id, msg.sender, msg.seq, rSend, msg.payload⟩ : Msg) = msg := by
+    cases msg; simp_all
+  refine ⟨?_, ?_, ?_, ?_⟩
+  · intro x hx; rw [mem_sendAll hx]; show rEcho ≠ rSend; decide
+  · intro x hx _
+    rw [mem_sendAll hx]
+    refine ⟨wf.1, ?_, ⟨msg.payload, rfl, ?_⟩, ?_, ?_⟩
+    · show fHas q'.send msg.sender.toNat msg.tag = true
+      rw [hto]; exact hq'
+    · show msg.sender.toNat ∉ c.byz → (msg.sender.toNat, i, _) ∈ s.log
+      rw [hto, hmsg]; exact hin
+    · intro dst m hm ha ht
+      exfalso
+      obtain ⟨h0, h1⟩ := hP.sendOk dst m hm ha
+      have hs : m.sender = msg.sender := congrArg Tag.sender ht
+      rw [ht, hs, hto] at h1
+      change fHas q.send l msg.tag = true at h1
+      rw [hnew] at h1
+      cases h1
+    · intro y hy _ _
+      rw [mem_sendAll hy]
+  · intro x hx ha; rw [mem_sendAll hx] at ha; exact absurd (show rEcho = rReady from ha) (by decide)
+  · intro _ x hx ha; rw [mem_sendAll hx] at ha; exact absurd (show rEcho = lDeliver from ha) (by decide)
+
+theorem ready_newok {H : Int → Int} {c : Cfg} {s : Sys} {i : Nat} {q' : Party} {n : Nat}
+    {msg : Msg} (hEQ : EQ c s.log msg.tag msg.payload) :
+    NewOk H c s i q' (sendAll n ⟨msg.id, msg.sender, msg.seq, rReady, msg.payload⟩) := by
+  refine ⟨?_, ?_, ?_, ?_⟩
+  · intro x hx; rw [mem_sendAll hx]; show rReady ≠ rSend; decide
+  · intro x hx ha; rw [mem_sendAll hx] at ha
+    exact absurd (show rReady = rEcho from ha) (by decide)
+  · intro x hx _; rw [mem_sendAll hx]; exact hEQ
+  · intro _ x hx ha; rw [mem_sendAll hx] at ha
+    exact absurd (show rReady = lDeliver from ha) (by decide)
+
+theorem quiet_of_request {ms : Sent} (h : ∀ x ∈ ms, x.2.action = rRequest) : Quiet ms := by
+  intro x hx
+  rw [h x hx]
+  decide
+
+theorem quiet_nil : Quiet [] := by intro x hx; cases hx
+
+theorem inv_disp_minor {H : Int → Int} {c : Cfg} {s : Sys} (hI : Inv H c s) {i : Nat}
+    (hi : c.honest i) (q : Party) (hq : s.st i = q) (q' : Party) (ms : Sent) (hc : SameCore q q')
+    (hs : ∀ x ∈ ms, x.2.action = rRequest ∨ x.2.action = rAnswer ∨ x.2.action = lFail) :
+    Inv H c ⟨upd s.st i q', s.log ++ tagMsgs i ms, s.bc, s.dl⟩ := by
+  have hP : PInv H c i q s.log s.dl := hq ▸ hI.parties i hi
+  refine inv_T1 hI hi q' ms (hP.sameCore hc) (NewOk.of_quiet ?_)
+  intro x hx
+  rcases hs x hx with h | h | h <;> rw [h] <;> decide
+
+theorem PInv.addAwaited {H : Int → Int} {c : Cfg} {i : Nat} {p : Party}
+    {log : List (Nat × Nat × Msg)} {dl : List (Nat × Tag × Int)} (hP : PInv H c i p log dl)
+    (tag : Tag) (hd : ∃ d, aGet p.dbar tag = some d)
+    (hnd : c.fifo = false → ∀ v, (i, tag, v) ∉ dl) :
+    PInv H c i { p with awaited := if p.awaited.contains tag then p.awaited
+                                   else tag :: p.awaited } log dl := by
+  by_cases hc : p.awaited.contains tag = true
+  · have : (if p.awaited.contains tag then p.awaited else tag :: p.awaited) = p.awaited := by
+      rw [if_pos hc]
+    rw [this]
+    exact { hP with }
+  · have hnot : tag ∉ p.awaited := by simpa using hc
+    have : (if p.awaited.contains tag then p.awaited else tag :: p.awaited) = tag :: p.awaited := by
+      rw [if_neg hc]
+    rw [this]
+    exact
+      { hP with
+        awNodup := List.nodup_cons.2 ⟨hnot, hP.awNodup⟩
+        awDbar := by
+          intro tag' h
+          rcases List.mem_cons.1 h with rfl | h
+          · exact hd
+          · exact hP.awDbar tag' h
+        nfKnown := by
+          intro hf tag' v hv
+          obtain ⟨h1, h2⟩ := hP.nfKnown hf tag' v hv
+          refine ⟨h1, ?_⟩
+          intro h
+          rcases List.mem_cons.1 h with rfl | h
+          · exact hnd hf v hv
+          · exact h2 h }
+
+theorem PInv.eraseAwaited {H : Int → Int} {c : Cfg} {i : Nat} {p : Party}
+    {log : List (Nat × Nat × Msg)} {dl : List (Nat × Tag × Int)} (hP : PInv H c i p log dl)
+    (tag : Tag) : PInv H c i { p with awaited := p.awaited.erase tag } log dl :=
+  { hP with
+    awNodup := hP.awNodup.erase tag
+    awDbar := fun tag' h => hP.awDbar tag' (List.mem_of_mem_erase h)
+    nfKnown := by
+      intro hf tag' v hv
+      obtain ⟨h1, h2⟩ := hP.nfKnown hf tag' v hv
+      exact ⟨h1, fun h => h2 (List.mem_of_mem_erase h)⟩ }
+
+theorem not_mem_erase_self {p : Party} (h : p.awaited.Nodup) (tag : Tag) :
+    tag ∉ p.awaited.erase tag := fun hm => (List.Nodup.mem_erase_iff h).1 hm |>.1 rfl
+
+/-- the `2t+1`-st r-ready for `(tag, d)`: `dbar[tag]` was not set before, and `d` is the digest of
+    an echo quorum -/
+theorem ready_p3 {H : Int → Int} {c : Cfg} (hy : Hyp H c) {s : Sys} (hI : Inv H c s) {i : Nat}
+    {q : Party} (hP : PInv H c i q s.log s.dl) {l : Nat} {msg : Msg}
+    (hact : msg.action = rReady) (hnew : fHas q.ready l msg.tag = false) (hl : l < c.n)
+    (hin : l ∉ c.byz → (l, i, msg) ∈ s.log)
+    (hr : cnt q.rD (msg.tag, msg.payload) + 1 = 2 * q.t + 1) (p3 : Party)
+    (hd : (aGet q.dbar msg.tag = none ∧
+            p3 = { readyPost q l msg with dbar := aSet q.dbar msg.tag msg.payload }) ∨
+          (aGet q.dbar msg.tag = some msg.payload ∧ p3 = readyPost q l msg)) :
+    aGet q.dbar msg.tag = none ∧
+    p3 = { readyPost q l msg with dbar := aSet q.dbar msg.tag msg.payload } ∧
+    PInv H c i p3 s.log s.dl ∧ EQ c s.log msg.tag msg.payload := by
+  have hn := hy.hn
+  have hb := hy.hb
+  rcases hd with ⟨hd, hp3⟩ | ⟨hd, _⟩
+  · have hP' := hP.readyCount l msg hact hnew hl hin
+    have hc1 : cnt (readyPost q l msg).rD (msg.tag, msg.payload) = 2 * c.t + 1 := by
+      show cnt (cntInc q.rD (msg.tag, msg.payload)).1 (msg.tag, msg.payload) = _
+      rw [cnt_cntInc_self, hr, hP.ct]
+    have hw := hP'.rQ msg.tag msg.payload
+    rw [hc1] at hw
+    obtain ⟨l', m, hm, ha, ht, hp⟩ := hw.honest (by omega)
+    have hEQ := hI.readyEQ l' i m hm ha
+    rw [ht, hp] at hEQ
+    refine ⟨hd, hp3, ?_, hEQ⟩
+    rw [hp3]
+    exact hP'.setDbar msg.tag msg.payload hd hEQ (by rw [hc1])
+  · exfalso
+    have := hP.dbarCnt _ _ hd
+    rw [← hP.ct] at this
+    omega
+
+/-- the dispatch of a message that link `l` handed over preserves the invariant -/
+theorem inv_disp {H : Int → Int} {c : Cfg} (hy : Hyp H c) {s : Sys} (hI : Inv H c s) {i : Nat}
+    (hi : c.honest i) (q : Party) (hq : s.st i = q) (l : Nat) (msg : Msg) (hl : l < c.n)
+    (hin : l ∈ c.byz ∨ (l, i, msg) ∈ s.log) (q' : Party) (ms : Sent) (o : Outcome)
+    (hD : Disp H q l msg q' ms o) :
+    Inv H c ⟨upd s.st i q', s.log ++ tagMsgs i ms, s.bc, dlAfter s.dl i msg.tag o⟩ := by
+  have hP : PInv H c i q s.log s.dl := hq ▸ hI.parties i hi
+  have hin' : l ∉ c.byz → (l, i, msg) ∈ s.log := fun hb => hin.resolve_left hb
+  have hn := hy.hn
+  have hb := hy.hb
+  cases hD with
+  | minor q' s' hc hs => exact inv_disp_minor hI hi q hq q' _ hc hs
+  | echoNew wf hact hnew hlS hm =>
+    exact inv_T1 hI hi _ _ (hP.echoNew l msg.tag msg.payload hm)
+      (echo_newok hP wf hact hnew hlS hin' (fHas_fIns_self _ _ _))
+  | echoOld wf hact hnew hlS hm =>
+    exact inv_T1 hI hi _ _ (hP.sameCore (SameCore.mkSend q l msg.tag))
+      (echo_newok hP wf hact hnew hlS hin' (fHas_fIns_self _ _ _))
+  | echoCount wf hact hnew s' hs =>
+    have hP' := hP.echoCount l msg hact hnew hl hin'
+    refine inv_T1 hI hi _ _ hP' ?_
+    rcases hs with rfl | ⟨rfl, hcnt⟩
+    · exact NewOk.of_quiet quiet_nil
+    · refine ready_newok ((hP'.eQ msg.tag msg.payload).toEQ ?_)
+      show c.n - c.t ≤ cnt (cntInc q.eD (msg.tag, msg.payload)).1 (msg.tag, msg.payload)
+      rw [cnt_cntInc_self, hcnt, hP.cn, hP.ct]
+  | readyCount wf hact hnew s' hs =>
+    have hP' := hP.readyCount l msg hact hnew hl hin'
+    refine inv_T1 hI hi _ _ hP' ?_
+    rcases hs with rfl | ⟨rfl, hcnt⟩
+    · exact NewOk.of_quiet quiet_nil
+    · have hw := hP'.rQ msg.tag msg.payload
+      have hc1 : cnt (readyPost q l msg).rD (msg.tag, msg.payload) = c.t + 1 := by
+        show cnt (cntInc q.rD (msg.tag, msg.payload)).1 (msg.tag, msg.payload) = _
+        rw [cnt_cntInc_self, hcnt, hP.ct]
+      rw [hc1] at hw
+      obtain ⟨l', m, hm, ha, ht, hp⟩ := hw.honest (by omega)
+      have := hI.readyEQ l' i m hm ha
+      rw [ht, hp] at this
+      exact ready_newok this
+  | readyReq wf hact hnew hr p3 hd s' hs =>
+    obtain ⟨hnone, hp3, hP3, hEQ⟩ := ready_p3 hy hI hP hact hnew hl hin' hr p3 hd
+    have hdb3 : aGet p3.dbar msg.tag = some msg.payload := by
+      rw [hp3]; exact aGet_aSet_self _ _ _
+    have hP4 := hP3.addAwaited msg.tag ⟨_, hdb3⟩ (by
+      intro hf v hv
+      obtain ⟨⟨d, hd'⟩, _⟩ := hP.nfKnown hf msg.tag v hv
+      rw [hnone] at hd'; cases hd')
+    have haw : p3.awaited = q.awaited := by rw [hp3]; rfl
+    rw [haw] at hP4
+    exact inv_T1 hI hi _ _ hP4 (NewOk.of_quiet (quiet_of_request hs))
+  | readyDeliver wf hact hnew hr p3 hd hfoo =>
+    obtain ⟨hnone, hp3, hP3, hEQ⟩ := ready_p3 hy hI hP hact hnew hl hin' hr p3 hd
+    have hdb3 : aGet p3.dbar msg.tag = some msg.payload := by
+      rw [hp3]; exact aGet_aSet_self _ _ _
+    have hmb3 : p3.mbar = q.mbar := by rw [hp3]; rfl
+    have haw : p3.awaited = q.awaited := by rw [hp3]; rfl
+    have wf3 : WF p3 msg := by rw [hp3]; exact wf
+    refine inv_T1_dob hI hi p3 hP3 msg wf3 ?_ ?_
+    · intro _
+      rcases hfoo with ⟨_, h0⟩ | ⟨mb, hm, hh⟩
+      · exfalso
+        rw [h0] at hEQ
+        obtain ⟨k, dst, m, _, hm, ha, _, hp⟩ := EQ.honest hy hEQ
+        obtain ⟨v, hv, _⟩ := hI.echoH k dst m hm ha
+        exact hy.h0 v (by rw [← hv, hp])
+      · refine ⟨mb, by rw [hmb3]; exact hm, ?_⟩
+        rw [hh]; exact hEQ
+    · intro hf _
+      refine ⟨?_, ⟨_, hdb3⟩, ?_⟩
+      · intro v hv
+        obtain ⟨⟨d, hd'⟩, _⟩ := hP.nfKnown hf msg.tag v hv
+        rw [hnone] at hd'; cases hd'
+      · rw [haw]
+        intro h
+        obtain ⟨d, hd'⟩ := hP.awDbar msg.tag h
+        rw [hnone] at hd'; cases hd'
+  | answerDeliver wf hact hnew db hd haw hh p2 hp2 =>
+    have hEQ : EQ c s.log msg.tag (H msg.payload) := by rw [hh]; exact hP.dbarEQ _ _ hd
+    have hmem : msg.tag ∈ q.awaited := by simpa using haw
+    have hP2 : PInv H c i p2 s.log s.dl := by
+      rw [hp2]
+      exact (((hP.sameCore (SameCore.mkAnswer q (fIns q.answer l msg.tag))).setMbar msg.tag
+        msg.payload (fun _ => hEQ)).eraseAwaited msg.tag)
+    have wf2 : WF p2 msg := by rw [hp2]; exact wf
+    have hmb2 : aGet p2.mbar msg.tag = some msg.payload := by rw [hp2]; exact aGet_aSet_self _ _ _
+    refine inv_T1_dob hI hi p2 hP2 msg wf2 (fun _ => ⟨_, hmb2, hEQ⟩) ?_
+    intro hf _
+    refine ⟨?_, ⟨db, by rw [hp2]; exact hd⟩, ?_⟩
+    · intro v hv
+      exact (hP.nfKnown hf msg.tag v hv).2 hmem
+    · rw [hp2]; exact not_mem_erase_self hP.awNodup msg.tag
+  | retrieveAns wf hact mb hm hc =>
+    refine inv_T1 hI hi _ _ hP ⟨?_, ?_, ?_, ?_⟩
+    · intro x hx; rw [List.mem_singleton] at hx; subst hx; show lDeliver ≠ rSend; decide
+    · intro x hx ha; rw [List.mem_singleton] at hx; subst hx
+      exact absurd (show lDeliver = rEcho from ha) (by decide)
+    · intro x hx ha; rw [List.mem_singleton] at hx; subst hx
+      exact absurd (show lDeliver = rReady from ha) (by decide)
+    · intro hf x hx _ hid
+      rw [List.mem_singleton] at hx; subst hx
+      show EQ c s.log msg.tag (H mb)
+      have hid' : msg.tag.id = c.ID := hid
+      rcases hc with ⟨_, hlt⟩ | hnf
+      · have w1 : msg.tag.sender ≤ (c.n : Int) - 1 := by rw [← hP.cn]; exact wf.2.1
+        obtain ⟨v, hv⟩ := hP.fifoDel hf msg.tag hid' wf.1 w1 wf.2.2 hlt
+        obtain ⟨v', hv', he⟩ := hP.good msg.tag hid' (Or.inr ⟨v, hv⟩)
+        rw [hm] at hv'; cases hv'; exact he
+      · rw [hP.cfifo, hf] at hnf; cases hnf
+  | ldelMark wf hact hnew hretr =>
+    exact inv_T1 hI hi _ _ (hP.onLdel l msg hact hnew hl hin') (NewOk.of_quiet quiet_nil)
+  | ldelDeliver wf hact hnew hretr i0 hi0 p3 hp3 =>
+    have hf : c.fifo = true := by
+      cases hfc : c.fifo with
+      | true => rfl
+      | false =>
+        have := hP.nfRetr hfc
+        rw [this] at hretr
+        simp [fHas] at hretr
+    have hPl := hP.onLdel l msg hact hnew hl hin'
+    obtain ⟨hmem, hfi, hnum⟩ := agreeFind_some _ _ _ _ _ hi0
+    have hi0n : i0 < (ldelPost q l msg).n := List.mem_range.1 hmem
+    obtain ⟨S, hcard, hS⟩ := agreeNum_wit (ldelPost q l msg) msg.tag (ldelBuf q l msg) i0 hi0n hfi
+    have hcn : (ldelPost q l msg).n = c.n := hP.cn
+    have hct : (ldelPost q l msg).t = c.t := hP.ct
+    have hlt : c.byz.card < S.card := by
+      rw [hcard]; rw [hcn, hct] at hnum; omega
+    obtain ⟨l', hl'S, hl'b⟩ := exists_honest_of_card (c := c) S hlt
+    obtain ⟨hl'n, hl'f, hl'v⟩ := hS l' hl'S
+    obtain ⟨m, hm, ha, hmt, hmp⟩ := hPl.ldel l' msg.tag hl'f (by rw [← hcn]; exact hl'n) hl'b
+    have hrb : rbVal (ldelPost q l msg) msg.tag l' = (ldelBuf q l msg).getD l' 0 := by
+      unfold rbVal
+      show ((aGet (aSet q.retrieveBuf msg.tag (ldelBuf q l msg)) msg.tag).getD _).getD l' 0 = _
+      rw [aGet_aSet_self]; rfl
+    have hEQ : msg.tag.id = c.ID → EQ c s.log msg.tag (H ((ldelBuf q l msg).getD i0 0)) := by
+      intro hid
+      have hmid : m.id = c.ID := by
+        have : m.tag.id = c.ID := by rw [hmt]; exact hid
+        exact this
+      have := hI.ldelEQ hf l' i m hm ha hmid
+      rw [hmt, hmp, hrb, hl'v] at this
+      exact this
+    have hP3 : PInv H c i p3 s.log s.dl := by
+      rw [hp3]; exact hPl.setMbar msg.tag _ hEQ
+    have wf3 : WF p3 msg := by rw [hp3]; exact wf
+    refine inv_T1_dob hI hi p3 hP3 msg wf3 ?_ ?_
+    · intro hid
+      exact ⟨_, by rw [hp3]; exact aGet_aSet_self _ _ _, hEQ hid⟩
+    · intro hnf; rw [hf] at hnf; cases hnf
+
+theorem stepSys_eq (H : Int → Int) (T : Tag → Int) (s : Sys) (i : Nat) (pi : List Nat)
+    (inp : Option (Nat × Msg)) (q' : Party) (ms : Sent) (o : Outcome)
+    (h : step H T (s.st i) pi inp = ⟨q', ms, o⟩) :
+    stepSys H T s i pi inp =
+      ⟨upd s.st i q', s.log ++ tagMsgs i ms, s.bc,
+       dlAfter s.dl i (deliveredTag (s.st i) pi inp) o⟩ := by
+  unfold stepSys
+  simp only [h]
+  cases o <;> rfl
+
+theorem quiet_of_retrieve {ms : Sent} (h : ∀ x ∈ ms, x.2.action = lRetrieve) : Quiet ms := by
+  intro x hx
+  rw [h x hx]
+  decide
+
+theorem tagMsgs_append (i : Nat) (a b : Sent) : tagMsgs i (a ++ b) = tagMsgs i a ++ tagMsgs i b := by
+  unfold tagMsgs; rw [List.map_append]
+
+theorem inv_stepSys {H : Int → Int} (T : Tag → Int) {c : Cfg} (hy : Hyp H c) {s : Sys}
+    (hI : Inv H c s) {i : Nat} (hi : c.honest i) (pi : List Nat) (inp : Option (Nat × Msg))
+    (hinp : ∀ l msg, inp = some (l, msg) → l < c.n ∧ (l ∈ c.byz ∨ (l, i, msg) ∈ s.log)) :
+    Inv H c (stepSys H T s i pi inp) := by
+  have hP : PInv H c i (s.st i) s.log s.dl := hI.parties i hi
+  rcases step_cases H T (s.st i) pi inp hP.cskip hP.cbuf with
+    ⟨e, rest, hff, hm, hstep⟩ | ⟨e, rest, m, hff, hm, htag, hstep⟩ |
+    ⟨hff, R, s0, hR, hs0, hrest⟩
+  · rw [stepSys_eq H T s i pi inp _ _ _ hstep]
+    exact inv_congr hI (upd_self _ _).symm (by simp [tagMsgs]) rfl rfl
+  · rw [stepSys_eq H T s i pi inp _ _ _ hstep, htag]
+    obtain ⟨he, hdel, hsub⟩ := findFirst_some _ _ _ _ hff
+    unfold deliverable at hdel
+    simp only [Bool.and_eq_true, decide_eq_true_eq, Bool.or_eq_true, Bool.not_eq_true'] at hdel
+    obtain ⟨hid, hseq⟩ := hdel
+    have hid' : e.tag.id = c.ID := hid.trans hP.cID
+    obtain ⟨w0, w1, w2⟩ := hP.bufWF e he
+    rw [hP.cn] at w1
+    obtain ⟨v, hv, hEQ⟩ := hP.good e.tag hid' (Or.inl ⟨e, he, rfl⟩)
+    have hvm : v = m := by rw [hm] at hv; cases hv; rfl
+    subst hvm
+    have := inv_deliver hI hi e.tag v rest (s.st i) rfl hsub hid' w0 w1 w2
+      (by
+        intro hf
+        rcases hseq with h | h
+        · rw [hP.cfifo, hf] at h; cases h
+        · exact h)
+      hm hEQ
+      (by
+        intro hf
+        exact absurd hid' (hP.nfBuf hf e he))
+    exact inv_congr this rfl (by simp [tagMsgs]) rfl rfl
+  · have hPk := hP.hk R hR
+    have hI1 := inv_T1 hI hi _ s0 hPk (NewOk.of_quiet (quiet_of_retrieve hs0))
+    rcases hrest with ⟨_, hstep⟩ | ⟨l, msg, q', sd, o, hinpeq, htag, hD, hstep⟩
+    · rw [stepSys_eq H T s i pi inp _ _ _ hstep]
+      exact hI1
+    · rw [stepSys_eq H T s i pi inp _ _ _ hstep, htag]
+      obtain ⟨hl, hin⟩ := hinp l msg hinpeq
+      have hin1 : l ∈ c.byz ∨ (l, i, msg) ∈ s.log ++ tagMsgs i s0 := by
+        rcases hin with h | h
+        · exact Or.inl h
+        · exact Or.inr (List.mem_append_left _ h)
+      have := inv_disp hy hI1 hi (hkParty (s.st i) R) (upd_same _ _ _) l msg hl hin1 q' sd o hD
+      refine inv_congr this (upd_upd _ _ _ _) ?_ rfl rfl
+      show (s.log ++ tagMsgs i s0) ++ tagMsgs i sd = s.log ++ tagMsgs i (s0 ++ sd)
+      rw [tagMsgs_append, List.append_assoc]
+
+theorem inv_bcast {H : Int → Int} {c : Cfg} {s : Sys} (hI : Inv H c s) {i : Nat}
+    (hi : c.honest i) (v rnd : Int) :
+    Inv H c ⟨upd s.st i (broadcast (s.st i) v rnd).1,
+      s.log ++ tagMsgs i (broadcast (s.st i) v rnd).2,
+      s.bc ++ [(i, ⟨(s.st i).ID, (s.st i).j, (broadcast (s.st i) v rnd).1.s⟩, v)], s.dl⟩ := by
+  have hP : PInv H c i (s.st i) s.log s.dl := hI.parties i hi
+  obtain ⟨s', hs'⟩ : ∃ s', s' = (if (s.st i).fifo then (s.st i).s + 1 else rnd) := ⟨_, rfl⟩
+  have hb1 : (broadcast (s.st i) v rnd).1 = { s.st i with s := s' } := by rw [hs']; rfl
+  have hb2 : (broadcast (s.st i) v rnd).2 =
+      sendAll (s.st i).n ⟨(s.st i).ID, (s.st i).j, s', rSend, v⟩ := by rw [hs']; rfl
+  rw [hb1, hb2]
+  have hsub : ∀ x ∈ s.log, x ∈ s.log ++ tagMsgs i
+      (sendAll (s.st i).n ⟨(s.st i).ID, (s.st i).j, s', rSend, v⟩) :=
+    fun x hx => List.mem_append_left _ hx
+  have hsplit : ∀ k dst m, (k, dst, m) ∈ s.log ++ tagMsgs i
+      (sendAll (s.st i).n ⟨(s.st i).ID, (s.st i).j, s', rSend, v⟩) →
+      (k, dst, m) ∈ s.log ∨ (k = i ∧ m = ⟨(s.st i).ID, (s.st i).j, s', rSend, v⟩) := by
+    intro k dst m h
+    rcases List.mem_append.1 h with h | h
+    · exact Or.inl h
+    · obtain ⟨h1, h2⟩ := mem_tagMsgs.1 h
+      exact Or.inr ⟨h1, mem_sendAll h2⟩
+  have hne : ∀ a : Int, a ≠ rSend → ∀ m : Msg,
+      m = ⟨(s.st i).ID, (s.st i).j, s', rSend, v⟩ → m.action = a → False := by
+    intro a ha m hm hma
+    rw [hm] at hma
+    exact ha hma.symm
+  refine
+    { src := ?_, rsend := ?_, echoH := ?_, echoU := ?_, readyEQ := ?_, ldelEQ := ?_,
+      dlWF := hI.dlWF, dlEQ := fun j tag v h => (hI.dlEQ j tag v h).mono hsub,
+      nodup := hI.nodup, parties := ?_ }
+  · intro k dst m h
+    rcases hsplit k dst m h with hl | ⟨rfl, _⟩
+    · exact hI.src k dst m hl
+    · exact hi
+  · intro k dst m h ha
+    rcases hsplit k dst m h with hl | ⟨rfl, hm⟩
+    · obtain ⟨h1, h2⟩ := hI.rsend k dst m hl ha
+      exact ⟨List.mem_append_left _ h1, h2⟩
+    · subst hm
+      refine ⟨List.mem_append_right _ (List.mem_singleton.2 rfl), ?_⟩
+      show ((s.st k).j : Int) = k
+      rw [hP.cj]
+  · intro k dst m h ha
+    rcases hsplit k dst m h with hl | ⟨_, hm⟩
+    · obtain ⟨v', hv', hl'⟩ := hI.echoH k dst m hl ha
+      exact ⟨v', hv', fun hb => hsub _ (hl' hb)⟩
+    · exact (hne rEcho (by decide) m hm ha).elim
+  · intro k dst m dst' m' h h' ha ha' ht
+    rcases hsplit k dst m h with hl | ⟨_, hm⟩
+    · rcases hsplit k dst' m' h' with hl' | ⟨_, hm'⟩
+      · exact hI.echoU k dst m dst' m' hl hl' ha ha' ht
+      · exact (hne rEcho (by decide) m' hm' ha').elim
+    · exact (hne rEcho (by decide) m hm ha).elim
+  · intro k dst m h ha
+    rcases hsplit k dst m h with hl | ⟨_, hm⟩
+    · exact (hI.readyEQ k dst m hl ha).mono hsub
+    · exact (hne rReady (by decide) m hm ha).elim
+  · intro hf k dst m h ha hid
+    rcases hsplit k dst m h with hl | ⟨_, hm⟩
+    · exact (hI.ldelEQ hf k dst m hl ha hid).mono hsub
+    · exact (hne lDeliver (by decide) m hm ha).elim
+  · intro k hk
+    by_cases hki : k = i
+    · subst hki
+      show PInv H c k (upd s.st k _ k) _ _
+      rw [upd_same]
+      have hP' : PInv H c k { s.st k with s := s' } s.log s.dl := { hP with }
+      refine hP'.mono hsub ?_ (fun _ _ => Iff.rfl)
+      intro dst m h ha
+      rcases hsplit k dst m h with hl | ⟨_, hm⟩
+      · exact Or.inl hl
+      · exact (hne rEcho (by decide) m hm ha).elim
+    · show PInv H c k (upd s.st i _ k) _ _
+      rw [upd_ne _ _ _ _ hki]
+      refine (hI.parties k hk).mono hsub ?_ (fun _ _ => Iff.rfl)
+      intro dst m h ha
+      rcases hsplit k dst m h with hl | ⟨rfl, _⟩
+      · exact Or.inl hl
+      · exact absurd rfl hki
+
+
+
+theorem inv_step {H : Int → Int} (T : Tag → Int) {c : Cfg} (hy : Hyp H c) {s : Sys}
+    (hI : Inv H c s) (ev : Event) (hv : ev.Valid c s) : Inv H c (s.apply H T ev) := by
+  cases ev with
+  | recv i src msg pi =>
+    obtain ⟨hi, hsrc, hin⟩ := hv
+    refine inv_stepSys T hy hI hi pi (some (src, msg)) ?_
+    intro l m h
+    simp only [Option.some.injEq, Prod.mk.injEq] at h
+    obtain ⟨rfl, rfl⟩ := h
+    exact ⟨hsrc, hin⟩
+  | tick i pi =>
+    refine inv_stepSys T hy hI hv pi none ?_
+    intro l m h; cases h
+  | bcast i v rnd => exact inv_bcast hI hv v rnd
+
+theorem reach_inv {H : Int → Int} {T : Tag → Int} {c : Cfg} (hy : Hyp H c) {s : Sys}
+    (hr : Reach H T c s) : Inv H c s := by
+  induction hr with
+  | init => exact inv_init H c
+  | step s ev _ hv ih => exact inv_step T hy ih ev hv
+
+/-! ## 8. main theorems (property C14, global part)
+
+  Deliveries and broadcasts are only ever recorded for honest parties (`Event.Valid`), so
+  "`(i, tag, v) ∈ s.dl`" reads "the honest party `i` delivered `v` for `tag`".
+  No assumption on the sequence numbers of non-FIFO broadcasts is needed for these statements
+  (if an honest sender reuses a sequence number, at most one of its two values is delivered and
+  integrity still holds for it). -/
+
+/-- **agreement**: two honest deliveries for the same tag carry the same value -/
+theorem rbc_agreement {H : Int → Int} {T : Tag → Int} {c : Cfg} (hy : Hyp H c) {s : Sys}
+    (hr : Reach H T c s) {i i' : Nat} {tag : Tag} {v v' : Int}
+    (h : (i, tag, v) ∈ s.dl) (h' : (i', tag, v') ∈ s.dl) : v = v' :=
+  inv_agreement hy (reach_inv hy hr) h h'
+
+/-- **integrity**: a value delivered for a tag of an honest sender was broadcast by that sender
+    under that tag -/
+theorem rbc_integrity {H : Int → Int} {T : Tag → Int} {c : Cfg} (hy : Hyp H c) {s : Sys}
+    (hr : Reach H T c s) {i k : Nat} {tag : Tag} {v : Int}
+    (h : (i, tag, v) ∈ s.dl) (hk : c.honest k) (hs : tag.sender = (k : Int)) :
+    (k, tag, v) ∈ s.bc :=
+  inv_integrity hy (reach_inv hy hr) h hk hs
+
+/-- **no duplication**: an honest party delivers a tag at most once (both modes) -/
+theorem rbc_no_duplication {H : Int → Int} {T : Tag → Int} {c : Cfg} (hy : Hyp H c) {s : Sys}
+    (hr : Reach H T c s) : (s.dl.map fun d => (d.1, d.2.1)).Nodup :=
+  (reach_inv hy hr).nodup
+
+
+/-! ## 9. non-vacuity: a concrete run with an equivocating Byzantine sender -/
+
+namespace Example
+
+/-- an injective hash without the value `0` -/
+def exH : Int → Int := fun x => 2 * x + 1
+def exT : Tag → Int := fun _ => 62 ^ 20
+/-- four parties, `t = 1`, party 3 Byzantine, channel 7, FIFO mode -/
+def exC : Cfg := ⟨4, 1, {3}, 7, true⟩
+
+theorem exHyp : Hyp exH exC where
+  hn := by decide
+  hb := by decide
+  inj := by intro a b h; simp only [exH] at h; omega
+  h0 := by intro m h; simp only [exH] at h; omega
+
+def mS (v : Int) : Msg := ⟨7, 3, 1, rSend, v⟩
+def mE (v : Int) : Msg := ⟨7, 3, 1, rEcho, exH v⟩
+def mR (v : Int) : Msg := ⟨7, 3, 1, rReady, exH v⟩
+def mQ (v : Int) : Msg := ⟨7, 3, 1, rRequest, exH v⟩
+def mA (v : Int) : Msg := ⟨7, 3, 1, rAnswer, v⟩
+
+/-- party 3 equivocates: r-send with 100 to parties 0 and 1, with 200 to party 2; it echoes 100.
+    Parties 0 and 1 deliver 100 on the r-ready path, party 2 (which stored 200) asks with
+    r-request and delivers 100 from party 0's r-answer. -/
+def exEvents : List Event :=
+  [ .recv 0 3 (mS 100) [], .recv 1 3 (mS 100) [], .recv 2 3 (mS 200) [],
+    .recv 0 0 (mE 100) [], .recv 0 1 (mE 100) [], .recv 0 3 (mE 100) [],
+    .recv 1 0 (mE 100) [], .recv 1 1 (mE 100) [], .recv 1 3 (mE 100) [],
+    .recv 2 0 (mE 100) [], .recv 2 1 (mE 100) [], .recv 2 3 (mE 100) [],
+    .recv 0 0 (mR 100) [], .recv 0 1 (mR 100) [], .recv 0 2 (mR 100) [],
+    .recv 1 0 (mR 100) [], .recv 1 1 (mR 100) [], .recv 1 2 (mR 100) [],
+    .recv 2 0 (mR 100) [], .recv 2 1 (mR 100) [], .recv 2 2 (mR 100) [],
+    .recv 0 2 (mQ 100) [], .recv 2 0 (mA 100) [] ]
+
+-- #eval (run exH exT exC exEvents).map (·.dl)
+--   some [(0, { id := 7, sender := 3, seq := 1 }, 100), (1, { id := 7, sender := 3, seq := 1 }, 100),
+--         (2, { id := 7, sender := 3, seq := 1 }, 100)]
+
+/-- every event of the list is valid and all three honest parties deliver `100` -/
+theorem ex_deliveries : (run exH exT exC exEvents).map (·.dl) =
+    some [(0, ⟨7, 3, 1⟩, 100), (1, ⟨7, 3, 1⟩, 100), (2, ⟨7, 3, 1⟩, 100)] := by decide
+
+/-- the final state of the run is reachable, so the safety theorems speak about it -/
+theorem ex_reach : ∃ s, Reach exH exT exC s ∧ (2, (⟨7, 3, 1⟩ : Tag), (100 : Int)) ∈ s.dl := by
+  cases h : run exH exT exC exEvents with
+  | none => have := ex_deliveries; rw [h] at this; cases this
+  | some s =>
+    refine ⟨s, run_reach _ _ _ _ _ h, ?_⟩
+    have := ex_deliveries
+    rw [h] at this
+    simp only [Option.map_some, Option.some.injEq] at this
+    rw [this]; decide
+
+end Example
+
+/-! ### the assumption `H m ≠ 0` cannot be dropped
+
+  With the injective "hash" `H = id` (so `H 0 = 0`): the Byzantine sender 3 starts slot 2 with
+  payload `0` towards parties 0 and 1 only.  Party 2 collects `2t+1` r-ready for digest `0`, finds
+  no stored payload — which the code represents by the digest `0` — so "matches", and buffers the
+  slot (slot 1 is still outstanding).  Then the sender hands party 2 an r-send for slot 2 with
+  payload `555`, which is stored.  After slot 1 is delivered everywhere, the buffered slot 2 is
+  delivered: `0` at parties 0 and 1, `555` at party 2. -/
+namespace HashZero
+
+def zT : Tag → Int := fun _ => 62 ^ 20
+def zC : Cfg := ⟨4, 1, {3}, 7, true⟩
+def mk (seq a v : Int) : Msg := ⟨7, 3, seq, a, v⟩
+def all3 (f : Nat → List Event) : List Event := f 0 ++ f 1 ++ f 2
+
+def zEvents : List Event :=
+  [ .recv 0 3 (mk 2 rSend 0) [], .recv 1 3 (mk 2 rSend 0) [] ] ++
+  all3 (fun i => [.recv i 0 (mk 2 rEcho 0) [], .recv i 1 (mk 2 rEcho 0) [],
+                  .recv i 3 (mk 2 rEcho 0) []]) ++
+  all3 (fun i => [.recv i 0 (mk 2 rReady 0) [], .recv i 1 (mk 2 rReady 0) [],
+                  .recv i 2 (mk 2 rReady 0) []]) ++
+  [ .recv 2 3 (mk 2 rSend 555) [] ] ++
+  all3 (fun i => [.recv i 3 (mk 1 rSend 9) []]) ++
+  all3 (fun i => [.recv i 0 (mk 1 rEcho 9) [], .recv i 1 (mk 1 rEcho 9) [],
+                  .recv i 2 (mk 1 rEcho 9) []]) ++
+  all3 (fun i => [.recv i 0 (mk 1 rReady 9) [], .recv i 1 (mk 1 rReady 9) [],
+                  .recv i 2 (mk 1 rReady 9) []]) ++
+  all3 (fun i => [.tick i []])
+
+theorem hash_zero_breaks_agreement : (run id zT zC zEvents).map (·.dl) =
+    some [(0, ⟨7, 3, 1⟩, 9), (1, ⟨7, 3, 1⟩, 9), (2, ⟨7, 3, 1⟩, 9),
+          (0, ⟨7, 3, 2⟩, 0), (1, ⟨7, 3, 2⟩, 0), (2, ⟨7, 3, 2⟩, 555)] := by decide
+
+end HashZero
+
 end Tmcg.Rbc
+
+/-
+#print axioms Tmcg.Rbc.rbc_agreement
+#print axioms Tmcg.Rbc.rbc_integrity
+#print axioms Tmcg.Rbc.rbc_no_duplication
+-/
